@@ -31,7 +31,6 @@ From Coq Require Import List ZArith PArith Bool Arith Lia ZifyBool.
 From KaiV Require Import Model.Res Model.Status Model.AMap Model.Node Model.NodeSpec Model.Session Proofs.Node.
 Import ListNotations.
 
-
 (* ------------------------------------------------------------------ LogA *)
 
 (** every undo entry targets an earlier evict entry; targets are distinct *)
@@ -1038,62 +1037,79 @@ Proof. reflexivity. Qed.
 Lemma task_with_same t : task_with t (t_status t) (t_groups t) = t.
 Proof. destruct t; reflexivity. Qed.
 Lemma pod_with_same p : pod_with p (p_status p) (p_groups p) (p_node p) (p_virt p) = p.
-Proof. destruct p as [t n v ps jr qc]. unfold pod_with, p_status, p_groups. cbn [p_task p_node p_virt p_pset p_jreq p_qc]. rewrite task_with_same. reflexivity. Qed.
+Proof. destruct p as [t n v ps jr qc gt qt]. unfold pod_with, p_status, p_groups. cbn [p_task p_node p_virt p_pset p_jreq p_qc p_gtab p_qtab]. rewrite task_with_same. reflexivity. Qed.
 Lemma pod_with_with p s g n v s' g' n' v' : pod_with (pod_with p s g n v) s' g' n' v' = pod_with p s' g' n' v'.
 Proof. reflexivity. Qed.
 
-(** * Pods: equal up to the GPU groups of a shared pod that holds no resources *)
+(** * Pods: equal up to what a shared pod that holds no resources carries over from its last placement
+    (GPU groups, device memory and accepted resources) *)
 Definition pmasked (p : pod) : bool :=
   is_shared (p_task p) && (status_eqb (p_status p) Pending || (status_eqb (p_status p) Releasing && p_virt p)).
-Definition prel (a b : pod) : Prop :=
-  pod_with b (p_status b) (p_groups a) (p_node b) (p_virt b) = a /\ (pmasked a = false -> p_groups b = p_groups a).
+Definition pcore (p : pod) : pod :=
+  mkPod (set_gmem (task_with (p_task p) (p_status p) []) 0) (p_node p) (p_virt p) (p_pset p) (p_jreq p) rzero (p_gtab p) (p_qtab p).
+Definition prel (a b : pod) : Prop := pcore a = pcore b /\ (pmasked a = false -> b = a).
 
 Lemma prel_refl a : prel a a.
-Proof. split; [apply pod_with_same|reflexivity]. Qed.
+Proof. split; reflexivity. Qed.
+Lemma pcore_fields a b : pcore a = pcore b ->
+  p_status b = p_status a /\ p_node b = p_node a /\ p_virt b = p_virt a /\ p_pset b = p_pset a
+  /\ p_jreq b = p_jreq a /\ p_id b = p_id a /\ t_job (p_task b) = t_job (p_task a)
+  /\ is_shared (p_task b) = is_shared (p_task a) /\ pmasked b = pmasked a
+  /\ p_gtab b = p_gtab a /\ p_qtab b = p_qtab a
+  /\ forall s g n v nid, at_node_raw (pod_with b s g n v) nid = at_node_raw (pod_with a s g n v) nid.
+Proof.
+  destruct a as [[i1 j1 s1 k1 r1 d1 m1 g1 v1 e1] n1 w1 ps1 jr1 qc1 gt1 qt1].
+  destruct b as [[i2 j2 s2 k2 r2 d2 m2 g2 v2 e2] n2 w2 ps2 jr2 qc2 gt2 qt2].
+  unfold pcore, pmasked, p_status, p_groups, p_id, pod_with, task_with, set_gmem, is_shared, at_node_raw.
+  cbn [p_task p_node p_virt p_pset p_jreq p_qc p_gtab p_qtab t_status t_groups t_id t_job t_kind t_req t_ndev t_gmem t_resv t_besteffort].
+  intros H. injection H. intros; subst. repeat split.
+Qed.
 Lemma prel_fields a b : prel a b ->
   p_status b = p_status a /\ p_node b = p_node a /\ p_virt b = p_virt a /\ p_pset b = p_pset a
-  /\ p_jreq b = p_jreq a /\ p_qc b = p_qc a /\ p_id b = p_id a /\ t_job (p_task b) = t_job (p_task a)
+  /\ p_jreq b = p_jreq a /\ p_id b = p_id a /\ t_job (p_task b) = t_job (p_task a)
   /\ is_shared (p_task b) = is_shared (p_task a) /\ pmasked b = pmasked a
-  /\ forall s g n v, pod_with b s g n v = pod_with a s g n v.
-Proof.
-  intros [E _]. rewrite <- E. unfold pmasked, p_status, p_groups, p_id, pod_with, task_with, is_shared.
-  cbn [p_task p_node p_virt p_pset p_jreq p_qc t_status t_groups t_id t_job t_kind]. repeat split.
-Qed.
+  /\ p_gtab b = p_gtab a /\ p_qtab b = p_qtab a
+  /\ forall s g n v nid, at_node_raw (pod_with b s g n v) nid = at_node_raw (pod_with a s g n v) nid.
+Proof. intros [E _]. apply pcore_fields. exact E. Qed.
 Lemma prel_sym a b : prel a b -> prel b a.
 Proof.
-  intros H. pose proof (prel_fields _ _ H) as (Es & En & Ev & _ & _ & _ & _ & _ & _ & Em & Ew).
-  destruct H as [E G]. split.
-  - rewrite <- Ew. rewrite <- Es, <- En, <- Ev. apply pod_with_same.
-  - intros M. rewrite Em in M. symmetry. apply G. exact M.
+  intros [E G]. pose proof (pcore_fields _ _ E) as (_ & _ & _ & _ & _ & _ & _ & _ & Em & _).
+  split; [symmetry; exact E|]. intros M. rewrite Em in M. symmetry. apply G. exact M.
 Qed.
 Lemma prel_trans a b c : prel a b -> prel b c -> prel a c.
 Proof.
-  intros H1 H2.
-  pose proof (prel_fields _ _ H1) as (Es & En & Ev & _ & _ & _ & _ & _ & _ & Em & Ew).
-  pose proof (prel_fields _ _ H2) as (Es' & En' & Ev' & _ & _ & _ & _ & _ & _ & Em' & Ew').
-  destruct H1 as [E1 G1]. destruct H2 as [E2 G2]. split.
-  - rewrite Ew', Es', En', Ev'. exact E1.
-  - intros M. rewrite G2 by (rewrite Em; exact M). apply G1. exact M.
+  intros [E1 G1] [E2 G2]. pose proof (pcore_fields _ _ E1) as (_ & _ & _ & _ & _ & _ & _ & _ & Em & _).
+  split; [congruence|]. intros M. assert (Mb : pmasked b = false) by (rewrite Em; exact M).
+  rewrite (G2 Mb). apply G1. exact M.
 Qed.
 Lemma prel_unmasked a b : prel a b -> pmasked a = false -> b = a.
-Proof. intros [E G] M. rewrite <- (G M) in E. rewrite pod_with_same in E. exact E. Qed.
-(** overwriting status, groups, node and virtual flag forgets the difference *)
-Lemma prel_pod_with a b s g n v : prel a b -> pod_with b s g n v = pod_with a s g n v.
-Proof. intros H. apply (prel_fields _ _ H). Qed.
-
+Proof. intros [_ G] M. apply G. exact M. Qed.
+Lemma prel_stale a b : pcore a = pcore b -> (pmasked a = false -> b = a) -> prel a b.
+Proof. intros E G. split; assumption. Qed.
+Lemma pcore_set_gs a g : pcore (set_gs a g) = pcore a.
+Proof. reflexivity. Qed.
 Lemma prel_groups a g : (pmasked a = false -> g = p_groups a) -> prel a (set_gs a g).
 Proof.
-  intros H. split.
-  - unfold set_gs. rewrite pod_with_with.
-    change (p_status (pod_with a (p_status a) g (p_node a) (p_virt a))) with (p_status a).
-    change (p_node (pod_with a (p_status a) g (p_node a) (p_virt a))) with (p_node a).
-    change (p_virt (pod_with a (p_status a) g (p_node a) (p_virt a))) with (p_virt a).
-    apply pod_with_same.
-  - exact H.
+  intros H. split; [symmetry; apply pcore_set_gs|]. intros M. rewrite (H M). unfold set_gs. apply pod_with_same.
 Qed.
-
 Lemma pod_norm p s g n v : p_status p = s -> p_groups p = g -> p_node p = n -> p_virt p = v -> pod_with p s g n v = p.
 Proof. intros <- <- <- <-. apply pod_with_same. Qed.
+
+(** accepted resources: recomputing them for the same node changes nothing *)
+Lemma at_node_raw_idem p nid : at_node_raw (at_node_raw p nid) nid = at_node_raw p nid.
+Proof. reflexivity. Qed.
+Lemma at_node_raw_with p s g n v nid : at_node_raw (pod_with p s g n v) nid = pod_with (at_node_raw p nid) s g n v.
+Proof. reflexivity. Qed.
+Lemma pcore_at_node_raw p nid : pcore (at_node_raw p nid) = pcore p.
+Proof. reflexivity. Qed.
+Lemma fresh_on_eq p nid : fresh_on p nid = true -> at_node_raw p nid = p.
+Proof.
+  unfold fresh_on. intros H. apply andb_true_iff in H. destruct H as [G Q].
+  apply Z.eqb_eq in G. apply req_eq in Q.
+  destruct p as [[i1 j1 s1 k1 r1 d1 m1 g1 v1 e1] n1 w1 ps1 jr1 qc1 gt1 qt1].
+  unfold at_node_raw, set_gmem in *. cbn [p_task p_node p_virt p_pset p_jreq p_qc p_gtab p_qtab t_gmem] in *.
+  rewrite G, Q. reflexivity.
+Qed.
 
 (** * Association lists *)
 Lemma amap_rel_put_back {V} (R : V -> V -> Prop) k v1 w m : forall m',
@@ -1342,6 +1358,7 @@ Section Sess.
   Hypothesis R_add_rem : forall a t, tok t = true -> R (add_resources (remove_resources a t) t) a.
   (** the token predicate only looks at the kind of the task *)
   Hypothesis tok_with : forall t s g, tok (task_with t s g) = tok t.
+  Hypothesis tok_gmem : forall t m, tok (set_gmem t m) = tok t.
 
   Definition srel (s a : sess) : Prop :=
     amap_rel R (s_nodes s) (s_nodes a) /\ amap_rel prel (s_pods s) (s_pods a)
@@ -1373,7 +1390,7 @@ Section Sess.
       get_pod s pid = Some p /\ p_id p = pid /\ tok (p_task p) = true /\ active_allocated (p_status p) = true
       /\ Indexed s p j /\ no_valid_evict (s_log s) pid = true /\ has_placing (s_log s) pid = false
       /\ p_node p = Some nid /\ alookup nid (s_nodes s) = Some n /\ sorted_keys (n_pods n)
-      /\ alookup pid (n_pods n) = Some (p_task p).
+      /\ alookup pid (n_pods n) = Some (p_task p) /\ at_node_raw p nid = p.
   Proof.
     unfold wf_cmd. cbn [negb andb]. destruct (get_pod s pid) as [p|]; [|discriminate].
     intros H.
@@ -1385,14 +1402,14 @@ Section Sess.
     apply andb_true_iff in H. destruct H as [Hid Ht].
     destruct (p_node p) as [nid|] eqn:Epn; [|discriminate].
     destruct (alookup nid (s_nodes s)) as [n|] eqn:En; [|discriminate].
-    apply andb_true_iff in Hn. destruct Hn as [Sd Cp].
+    apply andb_true_iff in Hn. destruct Hn as [Hn Cp]. apply andb_true_iff in Hn. destruct Hn as [Sd Fr].
     destruct (alookup pid (n_pods n)) as [c|] eqn:Ec; [|discriminate].
     apply task_eqb_eq in Cp. subst c.
     destruct (indexed_facts _ _ Hi) as [j Ij].
     exists p, j, nid, n. apply Pos.eqb_eq in Hid. apply negb_true_iff in Hp.
     split; [reflexivity|]. split; [exact Hid|]. split; [exact Ht|]. split; [exact Ha|]. split; [exact Ij|].
     split; [exact Hv|]. split; [exact Hp|]. split; [exact Epn|]. split; [exact En|].
-    split; [apply sortedb_sorted; exact Sd|exact Ec].
+    split; [apply sortedb_sorted; exact Sd|]. split; [exact Ec|apply fresh_on_eq; exact Fr].
   Qed.
 
   Ltac sess_cbn :=
@@ -1433,7 +1450,7 @@ Section Sess.
       /\ forall a, srel s' a -> srel s (unevict a pid (p_status p) nid (p_groups p) (p_virt p)).
   Proof.
     intros W.
-    destruct (wf_evict_facts _ _ _ W) as (p & j & nid & n & Gp & Eid & Tk & Act & (Ej & Ipos & Ips & Inn) & _ & _ & Epn & En & Srt & Cp).
+    destruct (wf_evict_facts _ _ _ W) as (p & j & nid & n & Gp & Eid & Tk & Act & (Ej & Ipos & Ips & Inn) & _ & _ & Epn & En & Srt & Cp & Fr).
     destruct (job_update_some j (p_pset p) (p_jreq p) (p_status p) (p_status p) Releasing Ips) as [j1 Ej1].
     set (jid := t_job (p_task p)) in *.
     assert (Gp' : alookup (p_id p) (s_pods s) = Some p) by (rewrite Eid; exact Gp).
@@ -1447,7 +1464,11 @@ Section Sess.
     pose (s' := put_pod (push (ev_dealloc (put_node s1 nid n1) p1) (OEvict pid (p_status p) nid (p_groups p) (p_virt p))) (set_vt p1 true)).
     assert (Ev : evict s pid = (s', true)).
     { unfold evict. rewrite Gp. fold jid. rewrite Ej, Epn, En.
-      rewrite (update_status_eq s p Releasing j p j1 Ej Gp' Ej1). cbn [negb]. fold jid p1 s1. rewrite Eu. reflexivity. }
+      rewrite (update_status_eq s p Releasing j p j1 Ej Gp' Ej1). cbn [negb].
+      assert (Eat : at_node (set_st p Releasing) nid = p1).
+      { unfold at_node. change (t_status (p_task (set_st p Releasing))) with Releasing. cbn [active_used].
+        unfold set_st. rewrite at_node_raw_with, Fr. reflexivity. }
+      rewrite Eat. fold jid s1. rewrite Eu. reflexivity. }
     assert (Pid1 : p_id p1 = pid) by exact Eid.
     destruct (job_update_static _ _ _ _ _ _ _ Ej1) as (Jq & Jn & _).
     assert (Ej' : alookup jid (s_jobs s1) = Some j1).
@@ -1470,7 +1491,7 @@ Section Sess.
     destruct (amap_rel_lookup_some _ _ _ pid _ Rp (alookup_aput_same' _ _ _ _ Gp)) as (pa & Ga & Pa).
     destruct (amap_rel_lookup_some _ _ _ jid _ Rj (alookup_aput_same' _ _ _ _ Ej)) as (ja & Gja & Ja).
     destruct (amap_rel_lookup_some _ _ _ nid _ Rn (alookup_aput_same' _ _ _ _ En)) as (na & Gna & Na).
-    pose proof (prel_fields _ _ Pa) as (Fs & Fn & Fv & Fps & Fjr & Fqc & Fid & Fjob & _ & _ & Fw).
+    pose proof (prel_fields _ _ Pa) as (Fs & Fn & Fv & Fps & Fjr & Fid & Fjob & _ & _ & _ & _ & Fw).
     destruct (job_update_back j (p_pset p) (p_jreq p) (p_status p) Releasing j1 Ej1 Ipos (Inn Releasing)) as (j2 & Ej2 & Jb).
     pose proof (job_update_rel j1 ja (p_pset p) (p_jreq p) Releasing Releasing (p_status p) Ja) as Jr. rewrite Ej2 in Jr.
     destruct (job_update ja (p_pset p) (p_jreq p) Releasing Releasing (p_status p)) as [ja2|] eqn:Eja2; [|contradiction].
@@ -1483,15 +1504,16 @@ Section Sess.
       - rewrite Fjob'. exact Gja.
       - rewrite Fid'. exact Ga.
       - rewrite Fps, Fjr, Fs. exact Eja2. }
-    assert (Pb : pod_with (set_st pa (p_status p)) (p_status p) (p_groups p) (p_node pa) (p_virt p) = p).
-    { unfold set_st. rewrite pod_with_with, Fw, Fn. change (p_node (set_vt p1 true)) with (p_node p).
-      unfold set_vt, p1, set_st. rewrite !pod_with_with. apply pod_with_same. }
+    assert (Au : active_used (p_status p) = true) by (destruct (p_status p); cbn in Act; try discriminate; reflexivity).
+    assert (Pb : at_node (pod_with (set_st pa (p_status p)) (p_status p) (p_groups p) (p_node pa) (p_virt p)) nid = p).
+    { unfold at_node. change (t_status (p_task (pod_with (set_st pa (p_status p)) (p_status p) (p_groups p) (p_node pa) (p_virt p)))) with (p_status p).
+      rewrite Au. unfold set_st. rewrite pod_with_with, Fw, Fn. change (p_node (set_vt p1 true)) with (p_node p).
+      unfold set_vt, p1, set_st. rewrite !pod_with_with, at_node_raw_with, Fr. apply pod_with_same. }
     assert (Am : amem pid (n_pods na) = true).
     { destruct (update_task_inv _ _ _ Eua) as (m' & Hr & _). destruct (remove_task_inv _ _ _ Hr) as (t' & At & _).
       unfold amem. rewrite Tid in At. rewrite At. reflexivity. }
-    unfold unevict, get_pod. rewrite Ga, Ua. cbv beta iota. rewrite Pb.
-    sess_cbn.
-    rewrite Gna, Am, Eua. sess_cbn.
+    unfold unevict, get_pod. rewrite Ga, Ua. cbv beta iota.
+    sess_cbn. rewrite Gna. cbv zeta. rewrite Pb, Am, Eua. sess_cbn.
     assert (Ejf : alookup jid (aput jid ja2 (s_jobs a)) = Some ja2) by (apply (alookup_aput_same' _ _ _ _ Gja)).
     destruct (job_update_static _ _ _ _ _ _ _ Eja2) as (Jq2 & Jn2 & _).
     destruct Ja as (Jqa & Jna & _).
@@ -1510,9 +1532,9 @@ Section Sess.
   Lemma link_unevict s pid p j prev nid pg pv n :
     get_pod s pid = Some p -> p_id p = pid -> tok (p_task p) = true ->
     p_status p = Releasing -> p_virt p = true -> Indexed s p j -> active_allocated prev = true ->
-    p_node p = Some nid -> (p_groups p = pg \/ is_shared (p_task p) = true) ->
+    p_node p = Some nid -> ((p_groups p = pg /\ at_node_raw p nid = p) \/ is_shared (p_task p) = true) ->
     alookup nid (s_nodes s) = Some n -> sorted_keys (n_pods n) ->
-    alookup pid (n_pods n) = Some (task_with (p_task p) Releasing pg) ->
+    alookup pid (n_pods n) = Some (task_with (p_task (at_node_raw p nid)) Releasing pg) ->
     let s' := unevict s pid prev nid pg pv in
     s_log s' = s_log s /\ s_stuck s' = s_stuck s /\
     forall a, srel s' a ->
@@ -1525,22 +1547,26 @@ Section Sess.
     assert (Gp' : alookup (p_id p) (s_pods s) = Some p) by (rewrite Eid; exact Gp).
     destruct (job_update_some j (p_pset p) (p_jreq p) (p_status p) (p_status p) prev Ips) as [j1 Ej1].
     rewrite St in Ej1.
-    pose (p1 := pod_with p prev pg (p_node p) pv).
-    assert (P1 : pod_with (set_st p prev) prev pg (p_node p) pv = p1) by reflexivity.
+    assert (Au : active_used prev = true) by (destruct prev; cbn in Act; try discriminate; reflexivity).
+    pose (p1 := at_node_raw (pod_with p prev pg (p_node p) pv) nid).
+    assert (P1 : at_node (pod_with (set_st p prev) prev pg (p_node p) pv) nid = p1).
+    { unfold at_node. change (t_status (p_task (pod_with (set_st p prev) prev pg (p_node p) pv))) with prev. rewrite Au. reflexivity. }
     assert (Tid : t_id (p_task p) = pid) by exact Eid.
+    pose (t0 := task_with (p_task (at_node_raw p nid)) Releasing pg).
     destruct (nr_update_back R tok R_sym R_trans R_pods R_set_pods R_add R_remove R_rem_add R_add_rem
-                n (task_with (p_task p) Releasing pg) (p_task p1)) as (n1 & Eu & Back).
-    { rewrite tok_with. exact Tk. } { unfold p1, pod_with. cbn [p_task]. rewrite tok_with. exact Tk. } { exact Srt. }
-    { cbn [t_id task_with]. rewrite Tid. exact Cp. } { reflexivity. }
+                n t0 (p_task p1)) as (n1 & Eu & Back).
+    { unfold t0, at_node_raw. cbn [p_task]. rewrite tok_with, tok_gmem. exact Tk. }
+    { unfold p1, at_node_raw, pod_with. cbn [p_task]. rewrite tok_gmem, tok_with. exact Tk. } { exact Srt. }
+    { change (t_id t0) with (t_id (p_task p)). rewrite Tid. exact Cp. } { reflexivity. }
     assert (Am : amem pid (n_pods n) = true) by (unfold amem; rewrite Cp; reflexivity).
     pose (s1 := put_pod (set_jobs s (aput jid j1 (s_jobs s))) (set_st p prev)).
     assert (Us : update_status s p prev = (s1, true)).
     { apply (update_status_eq s p prev j p j1 Ej Gp'). rewrite St. exact Ej1. }
     pose (s2 := put_node (put_pod s1 p1) nid n1).
     assert (Ef : unevict s pid prev nid pg pv = ev_alloc s2 p1).
-    { unfold unevict. rewrite Gp, Us. cbv beta iota. rewrite P1.
-      assert (Nl : alookup nid (s_nodes (put_pod s1 p1)) = Some n) by (unfold s1; sess_cbn; exact En).
-      rewrite Nl, Am, Eu. reflexivity. }
+    { unfold unevict. rewrite Gp, Us. cbv beta iota.
+      assert (Nl : alookup nid (s_nodes s1) = Some n) by (unfold s1; sess_cbn; exact En).
+      rewrite Nl. cbv zeta. rewrite P1, Am, Eu. reflexivity. }
     destruct (job_update_static _ _ _ _ _ _ _ Ej1) as (Jq & Jn & _).
     assert (Ej' : alookup jid (s_jobs s2) = Some j1).
     { unfold s2, s1. sess_cbn. apply (alookup_aput_same' _ _ _ _ Ej). }
@@ -1550,7 +1576,7 @@ Section Sess.
     { cq. unfold s2, s1. sess_cbn. change (p_id p1) with (p_id p). change (p_id (set_st p prev)) with (p_id p).
       rewrite Eid. apply aput_aput. }
     assert (Js : s_jobs (ev_alloc s2 p1) = aput jid j1 (s_jobs s)) by (cq; reflexivity).
-    assert (Qs : s_queues (ev_alloc s2 p1) = qeff (s_queues s) (j_queue j) (j_nonpreempt j) (p_qc p)).
+    assert (Qs : s_queues (ev_alloc s2 p1) = qeff (s_queues s) (j_queue j) (j_nonpreempt j) (p_qc p1)).
     { unfold ev_alloc. rewrite (cq_queues _ _ _ j1) by exact Ej'. unfold s2, s1. sess_cbn. rewrite Jq, Jn. reflexivity. }
     split; [cq; reflexivity|]. split; [cq; reflexivity|].
     intros a (Rn & Rp & Rj & Rq & Rk).
@@ -1560,7 +1586,7 @@ Section Sess.
     destruct (amap_rel_lookup_some _ _ _ jid _ Rj (alookup_aput_same' _ _ _ _ Ej)) as (ja & Gja & Ja).
     destruct (amap_rel_lookup_some _ _ _ nid _ Rn (alookup_aput_same' _ _ _ _ En)) as (na & Gna & Na).
     assert (Nm : pmasked p1 = false).
-    { unfold pmasked, p1, p_status, pod_with, p_virt. cbn [p_task task_with t_status].
+    { unfold pmasked. change (p_status p1) with prev. change (p_virt p1) with pv.
       destruct prev; cbn in Act; try discriminate; cbn; apply andb_false_r. }
     pose proof (prel_unmasked _ _ Pa Nm) as Epa. subst pa.
     destruct (job_update_back j (p_pset p) (p_jreq p) Releasing prev j1 Ej1 Ipos (Inn prev)) as (j2 & Ej2 & Jb).
@@ -1569,11 +1595,12 @@ Section Sess.
     destruct (Back na Na) as (na' & Eua & Rna).
     assert (Ua : update_status a p1 Releasing = (put_pod (set_jobs a (aput jid ja2 (s_jobs a))) (set_st p1 Releasing), true)).
     { apply (update_status_eq a p1 Releasing ja p1 ja2); [exact Gja|change (p_id p1) with (p_id p); rewrite Eid; exact Ga|exact Eja2]. }
-    assert (Tk1 : task_with (p_task p) Releasing pg = p_task (set_st p1 Releasing)) by reflexivity.
+    assert (Eat : at_node (set_st p1 Releasing) nid = set_st p1 Releasing) by reflexivity.
+    assert (Tk1 : t0 = p_task (set_st p1 Releasing)) by reflexivity.
     rewrite Tk1 in Eua.
     eexists. split.
     { unfold evict, get_pod. rewrite Ga. change (t_job (p_task p1)) with jid. rewrite Gja.
-      change (p_node p1) with (p_node p). rewrite Epn, Gna, Ua. cbn [negb]. rewrite Eua. reflexivity. }
+      change (p_node p1) with (p_node p). rewrite Epn, Gna, Ua. cbn [negb]. rewrite Eat, Eua. reflexivity. }
     destruct (job_update_static _ _ _ _ _ _ _ Eja2) as (Jq2 & Jn2 & _).
     destruct Ja as (Jqa & Jna & _).
     assert (Ejf : alookup jid (aput jid ja2 (s_jobs a)) = Some ja2) by (apply (alookup_aput_same' _ _ _ _ Gja)).
@@ -1583,12 +1610,15 @@ Section Sess.
       + change (p_id (set_vt (set_st p1 Releasing) true)) with (p_id p). change (p_id (set_st p1 Releasing)) with (p_id p).
         rewrite Eid, aput_aput.
         apply (amap_rel_put_back prel pid p1 _ (s_pods s) (s_pods a) Rp). intros v Ev'. unfold get_pod in Gp. rewrite Gp in Ev'. injection Ev' as <-.
-        assert (X : set_vt (set_st p1 Releasing) true = set_gs p pg) by (unfold set_gs; rewrite St, Vt; reflexivity).
-        rewrite X. apply prel_groups. intros M. destruct Gor as [G|G]; [symmetry; exact G|].
-        unfold pmasked in M. rewrite G, St, Vt in M. cbn in M. discriminate.
+        assert (X : set_vt (set_st p1 Releasing) true = at_node_raw (set_gs p pg) nid).
+        { unfold set_gs. rewrite St, Vt. reflexivity. }
+        rewrite X. apply prel_stale; [reflexivity|]. intros M. destruct Gor as [[G F]|G].
+        * rewrite <- G. unfold set_gs. rewrite pod_with_same. exact F.
+        * unfold pmasked in M. rewrite G, St, Vt in M. cbn in M. discriminate.
       + apply (amap_rel_put_back jrel jid j1 ja2 (s_jobs s) (s_jobs a) Rj). intros v Ev'. rewrite Ej in Ev'. injection Ev' as <-.
         eapply jrel_trans; [exact Jb|exact Jr].
       + unfold ev_dealloc. rewrite (cq_queues _ _ _ ja2) by (sess_cbn; exact Ejf). sess_cbn.
+        change (p_qc (set_st p1 Releasing)) with (p_qc p1).
         rewrite <- Rq, Jq2, Jn2, <- Jqa, <- Jna, Jq, Jn. symmetry. apply qeff_back.
       + exact Rk.
     - sess_cbn. cq. reflexivity.
@@ -1599,7 +1629,7 @@ Section Sess.
   Lemma link_pipe_add s pid p0 gs nid n j :
     get_pod s pid = Some p0 -> p_id p0 = pid -> tok (p_task p0) = true -> Indexed s p0 j ->
     (p_status p0 = Pending \/ (p_status p0 = Releasing /\ p_virt p0 = true)) ->
-    (gs = None \/ is_shared (p_task p0) = true) ->
+    ((gs = None /\ at_node_raw p0 nid = p0) \/ is_shared (p_task p0) = true) ->
     alookup nid (s_nodes s) = Some n -> amem pid (n_pods n) = false ->
     let p := match gs with Some g => set_gs p0 g | None => p0 end in
     exists s', pipeline_body (put_pod s p) p nid n None false = (s', true)
@@ -1626,9 +1656,9 @@ Section Sess.
     assert (G0 : alookup (p_id p) (s_pods s0) = Some p).
     { unfold s0. sess_cbn. rewrite Fid. unfold get_pod in Gp. apply (alookup_aput_same' _ _ _ _ Gp). }
     destruct (job_update_some j (p_pset p0) (p_jreq p0) (p_status p0) (p_status p0) Pipelined Ips) as [j1 Ej1].
-    pose (p1 := set_nd (set_st p Pipelined) (Some nid)).
+    pose (p1 := at_node_raw (set_nd (set_st p Pipelined) (Some nid)) nid).
     destruct (nr_add_remove R tok R_sym R_trans R_pods R_set_pods R_remove R_rem_add n (p_task p1)) as (n1 & Ea & Back).
-    { unfold p1, set_nd, set_st, pod_with. cbn [p_task]. rewrite !tok_with. exact Ftk. }
+    { unfold p1, at_node_raw, set_nd, set_st, pod_with. cbn [p_task]. rewrite tok_gmem, !tok_with. exact Ftk. }
     { change (t_id (p_task p1)) with (p_id p). rewrite Fid. exact Am. }
     pose (s1 := put_pod (set_jobs s0 (aput jid j1 (s_jobs s0))) (set_st p Pipelined)).
     assert (Us : update_status s0 p Pipelined = (s1, true)).
@@ -1640,7 +1670,8 @@ Section Sess.
     pose (s3 := ev_alloc (put_node s2 nid n1) p1).
     pose (s' := put_pod (push s3 (OPipe (p_id p) (p_status p) (p_node p) (p_groups p) (p_virt p) nid false)) (set_vt p1 true)).
     assert (Ef : pipeline_body s0 p nid n None false = (s', true)).
-    { unfold pipeline_body. rewrite Us. cbv beta iota. fold p1 s2. rewrite Ea. reflexivity. }
+    { unfold pipeline_body. rewrite Us. cbv beta iota.
+      change (at_node (set_nd (set_st p Pipelined) (Some nid)) nid) with p1. fold s2. rewrite Ea. reflexivity. }
     destruct (job_update_static _ _ _ _ _ _ _ Ej1) as (Jq & Jn & _).
     assert (Ej' : alookup jid (s_jobs (put_node s2 nid n1)) = Some j1).
     { unfold s2, s1, s0. sess_cbn. apply (alookup_aput_same' _ _ _ _ Ej). }
@@ -1653,10 +1684,10 @@ Section Sess.
       change (p_id (set_vt p1 true)) with (p_id p). change (p_id p1) with (p_id p). change (p_id (set_st p Pipelined)) with (p_id p).
       rewrite Fid, !aput_aput. reflexivity. }
     assert (Js : s_jobs s' = aput jid j1 (s_jobs s)) by (unfold s', s3; sess_cbn; cq; reflexivity).
-    assert (Qs : s_queues s' = qeff (s_queues s) (j_queue j) (j_nonpreempt j) (p_qc p0)).
+    assert (Qs : s_queues s' = qeff (s_queues s) (j_queue j) (j_nonpreempt j) (p_qc p1)).
     { unfold s', s3. sess_cbn. unfold ev_alloc.
       rewrite (cq_queues _ _ _ j1) by (change (t_job (p_task p1)) with (t_job (p_task p)); rewrite Fjob; exact Ej').
-      unfold s2, s1, s0. sess_cbn. rewrite Jq, Jn, <- Fqc. reflexivity. }
+      unfold s2, s1, s0. sess_cbn. rewrite Jq, Jn. reflexivity. }
     exists s'. split; [exact Ef|]. split; [exact Ls|]. split; [exact Ks|].
     clearbody s'. intros a (Rn & Rp & Rj & Rq & Rk).
     rewrite Ns in Rn. rewrite Ps in Rp. rewrite Js in Rj. rewrite Qs in Rq. rewrite Ks in Rk.
@@ -1679,9 +1710,10 @@ Section Sess.
       - change (p_id (set_vt p1 true)) with (p_id p). rewrite Fid. exact Ga.
       - change (p_pset (set_vt p1 true)) with (p_pset p). change (p_jreq (set_vt p1 true)) with (p_jreq p).
         rewrite Fps, Fjr. exact Eja2. }
-    assert (Pb : pod_with (set_vt p1 true) (p_status p0) (p_groups p) (p_node p0) (p_virt p0) = p).
-    { unfold set_vt, p1, set_nd, set_st. rewrite !pod_with_with. rewrite Pp at 2. unfold set_gs.
-      rewrite <- Fst, <- Fnd, <- Fvt. symmetry. rewrite <- (pod_with_same p) at 1. reflexivity. }
+    pose (pb := at_node_raw p nid).
+    assert (Pb : pod_with (set_vt p1 true) (p_status p0) (p_groups p) (p_node p0) (p_virt p0) = pb).
+    { transitivity (at_node_raw (pod_with p (p_status p0) (p_groups p) (p_node p0) (p_virt p0)) nid); [reflexivity|].
+      rewrite <- Fst, <- Fnd, <- Fvt, pod_with_same. reflexivity. }
     eexists. split.
     { unfold unpipeline, get_pod. rewrite Ga, Ua. cbv beta iota.
       change (p_node (set_vt p1 true)) with (Some nid). rewrite Pb.
@@ -1692,15 +1724,15 @@ Section Sess.
     split; [|split].
     - split; [|split; [|split; [|split]]]; sess_cbn; cq; sess_cbn.
       + apply (amap_rel_put_back R nid n1 na' (s_nodes s) (s_nodes a) Rn). intros v Ev'. rewrite En in Ev'. injection Ev' as <-. exact Rna.
-      + change (p_id (set_st (set_vt p1 true) (p_status p0))) with (p_id p). rewrite Fid, aput_aput.
-        apply (amap_rel_put_back prel pid (set_vt p1 true) p (s_pods s) (s_pods a) Rp). intros v Ev'. unfold get_pod in Gp. rewrite Gp in Ev'. injection Ev' as <-.
-        rewrite Pp. apply prel_groups. intros M. destruct Hgs as [G|G].
-        * unfold p. rewrite G. reflexivity.
+      + change (p_id (set_st (set_vt p1 true) (p_status p0))) with (p_id p). change (p_id pb) with (p_id p). rewrite Fid, aput_aput.
+        apply (amap_rel_put_back prel pid (set_vt p1 true) pb (s_pods s) (s_pods a) Rp). intros v Ev'. unfold get_pod in Gp. rewrite Gp in Ev'. injection Ev' as <-.
+        apply prel_stale; [unfold pb, p; destruct gs; reflexivity|]. intros M. destruct Hgs as [[G F]|G].
+        * unfold pb, p. rewrite G. exact F.
         * unfold pmasked in M. rewrite G in M. destruct Hst as [H|[H H']]; rewrite H in M; [|rewrite H' in M]; cbn in M; discriminate.
       + apply (amap_rel_put_back jrel jid j1 ja2 (s_jobs s) (s_jobs a) Rj). intros v Ev'. rewrite Ej in Ev'. injection Ev' as <-.
         eapply jrel_trans; [exact Jb|exact Jr].
-      + unfold ev_dealloc. rewrite (cq_queues _ _ _ ja2) by (sess_cbn; rewrite Fjob; exact Ejf). sess_cbn.
-        rewrite <- Rq, Jq2, Jn2, <- Jqa, <- Jna, Jq, Jn, Fqc. symmetry. apply qeff_back.
+      + unfold ev_dealloc. rewrite (cq_queues _ _ _ ja2) by (sess_cbn; change (t_job (p_task pb)) with (t_job (p_task p)); rewrite Fjob; exact Ejf). sess_cbn.
+        change (p_qc pb) with (p_qc p1). rewrite <- Rq, Jq2, Jn2, <- Jqa, <- Jna, Jq, Jn. symmetry. apply qeff_back.
       + exact Rk.
     - sess_cbn. cq. reflexivity.
     - sess_cbn. cq. reflexivity.
@@ -1711,7 +1743,7 @@ Section Sess.
     get_pod s pid = Some p0 -> p_id p0 = pid -> tok (p_task p0) = true -> Indexed s p0 j ->
     p_status p0 = Releasing -> p_virt p0 = true -> is_shared (p_task p0) = true ->
     alookup nid (s_nodes s) = Some n -> sorted_keys (n_pods n) -> alookup pid (n_pods n) = Some c ->
-    c = task_with (p_task p0) Releasing (t_groups c) ->
+    c = task_with (p_task (at_node_raw p0 nid)) Releasing (t_groups c) ->
     let p := set_gs p0 g in
     exists s', pipeline_body (put_pod s p) p nid n (Some c) true = (s', true)
       /\ s_log s' = s_log s ++ [OPipe pid (p_status p0) (p_node p0) (t_groups c) (p_virt p0) nid true]
@@ -1736,9 +1768,9 @@ Section Sess.
     assert (G0 : alookup (p_id p) (s_pods s0) = Some p).
     { unfold s0. sess_cbn. rewrite Fid. unfold get_pod in Gp. apply (alookup_aput_same' _ _ _ _ Gp). }
     destruct (job_update_some j (p_pset p0) (p_jreq p0) (p_status p0) (p_status p0) Pipelined Ips) as [j1 Ej1].
-    pose (p1 := set_nd (set_st p Pipelined) (Some nid)).
+    pose (p1 := at_node_raw (set_nd (set_st p Pipelined) (Some nid)) nid).
     destruct (nr_move_back R tok R_refl R_sym R_trans R_pods R_set_pods R_remove R_rem_add n c (p_task p1)) as (n1 & Ea & Back).
-    { unfold p1, set_nd, set_st, pod_with. cbn [p_task]. rewrite !tok_with. exact Ftk. }
+    { unfold p1, at_node_raw, set_nd, set_st, pod_with. cbn [p_task]. rewrite tok_gmem, !tok_with. exact Ftk. }
     { exact Srt. }
     { change (t_id (p_task p1)) with (p_id p). rewrite Fid. exact Cp. }
     { exact Hsh. }
@@ -1752,7 +1784,8 @@ Section Sess.
     pose (s3 := ev_alloc (put_node s2 nid n1) p1).
     pose (s' := put_pod (push s3 (OPipe (p_id p) (p_status p) (p_node p) (t_groups c) (p_virt p) nid true)) (set_vt p1 true)).
     assert (Ef : pipeline_body s0 p nid n (Some c) true = (s', true)).
-    { unfold pipeline_body. rewrite Us. cbv beta iota. fold p1 s2. rewrite Ea. reflexivity. }
+    { unfold pipeline_body. rewrite Us. cbv beta iota.
+      change (at_node (set_nd (set_st p Pipelined) (Some nid)) nid) with p1. fold s2. rewrite Ea. reflexivity. }
     destruct (job_update_static _ _ _ _ _ _ _ Ej1) as (Jq & Jn & _).
     assert (Ej' : alookup jid (s_jobs (put_node s2 nid n1)) = Some j1).
     { unfold s2, s1, s0. sess_cbn. apply (alookup_aput_same' _ _ _ _ Ej). }
@@ -1765,10 +1798,10 @@ Section Sess.
       change (p_id (set_vt p1 true)) with (p_id p). change (p_id p1) with (p_id p). change (p_id (set_st p Pipelined)) with (p_id p).
       rewrite Fid, !aput_aput. reflexivity. }
     assert (Js : s_jobs s' = aput jid j1 (s_jobs s)) by (unfold s', s3; sess_cbn; cq; reflexivity).
-    assert (Qs : s_queues s' = qeff (s_queues s) (j_queue j) (j_nonpreempt j) (p_qc p0)).
+    assert (Qs : s_queues s' = qeff (s_queues s) (j_queue j) (j_nonpreempt j) (p_qc p1)).
     { unfold s', s3. sess_cbn. unfold ev_alloc.
       rewrite (cq_queues _ _ _ j1) by (change (t_job (p_task p1)) with (t_job (p_task p)); rewrite Fjob; exact Ej').
-      unfold s2, s1, s0. sess_cbn. rewrite Jq, Jn, <- Fqc. reflexivity. }
+      unfold s2, s1, s0. sess_cbn. rewrite Jq, Jn. reflexivity. }
     exists s'. split; [exact Ef|]. split; [exact Ls|]. split; [exact Ks|].
     clearbody s'. intros a (Rn & Rp & Rj & Rq & Rk).
     rewrite Ns in Rn. rewrite Ps in Rp. rewrite Js in Rj. rewrite Qs in Rq. rewrite Ks in Rk.
@@ -1791,10 +1824,10 @@ Section Sess.
       - change (p_id (set_vt p1 true)) with (p_id p). rewrite Fid. exact Ga.
       - change (p_pset (set_vt p1 true)) with (p_pset p). change (p_jreq (set_vt p1 true)) with (p_jreq p).
         rewrite Fps, Fjr. exact Eja2. }
-    pose (pr := set_gs p0 (t_groups c)).
+    pose (pr := at_node_raw (set_gs p0 (t_groups c)) nid).
     assert (Pb : pod_with (set_vt p1 true) (p_status p0) (t_groups c) (p_node p0) (p_virt p0) = pr) by reflexivity.
     assert (Tc : p_task pr = c).
-    { unfold pr, set_gs, pod_with. cbn [p_task]. rewrite Hst. symmetry. exact Hc. }
+    { transitivity (task_with (p_task (at_node_raw p0 nid)) (p_status p0) (t_groups c)); [reflexivity|]. rewrite Hst. symmetry. exact Hc. }
     eexists. split.
     { unfold unpipeline, get_pod. rewrite Ga, Ua. cbv beta iota.
       change (p_node (set_vt p1 true)) with (Some nid). rewrite Pb.
@@ -1807,11 +1840,11 @@ Section Sess.
       + apply (amap_rel_put_back R nid n1 _ (s_nodes s) (s_nodes a) Rn). intros v Ev'. rewrite En in Ev'. injection Ev' as <-. exact Rna.
       + change (p_id (set_st (set_vt p1 true) (p_status p0))) with (p_id p). change (p_id pr) with (p_id p). rewrite Fid, aput_aput.
         apply (amap_rel_put_back prel pid (set_vt p1 true) pr (s_pods s) (s_pods a) Rp). intros v Ev'. unfold get_pod in Gp. rewrite Gp in Ev'. injection Ev' as <-.
-        apply prel_groups. intros M. unfold pmasked in M. rewrite Hsh, Hst, Hvt in M. cbn in M. discriminate.
+        apply prel_stale; [reflexivity|]. intros M. unfold pmasked in M. rewrite Hsh, Hst, Hvt in M. cbn in M. discriminate.
       + apply (amap_rel_put_back jrel jid j1 ja2 (s_jobs s) (s_jobs a) Rj). intros v Ev'. rewrite Ej in Ev'. injection Ev' as <-.
         eapply jrel_trans; [exact Jb|exact Jr].
       + unfold ev_dealloc. rewrite (cq_queues _ _ _ ja2) by (sess_cbn; exact Ejf). sess_cbn.
-        rewrite <- Rq, Jq2, Jn2, <- Jqa, <- Jna, Jq, Jn. symmetry. apply qeff_back.
+        change (p_qc pr) with (p_qc p1). rewrite <- Rq, Jq2, Jn2, <- Jqa, <- Jna, Jq, Jn. symmetry. apply qeff_back.
       + exact Rk.
     - sess_cbn. cq. reflexivity.
     - sess_cbn. cq. reflexivity.
@@ -1820,11 +1853,11 @@ Section Sess.
   Lemma link_alloc s pid p0 gs nid n j :
     get_pod s pid = Some p0 -> p_id p0 = pid -> tok (p_task p0) = true -> Indexed s p0 j ->
     p_status p0 = Pending -> p_node p0 = None ->
-    (gs = None \/ is_shared (p_task p0) = true) ->
+    ((gs = None /\ at_node_raw p0 nid = p0) \/ is_shared (p_task p0) = true) ->
     alookup nid (s_nodes s) = Some n -> amem pid (n_pods n) = false ->
     let p := match gs with Some g => set_gs p0 g | None => p0 end in
     exists s', allocate s pid nid gs = (s', true)
-      /\ s_log s' = s_log s ++ [OAlloc (set_nd (set_st p Allocated) (Some nid)) nid (p_virt p0)]
+      /\ s_log s' = s_log s ++ [OAlloc (at_node_raw (set_nd (set_st p Allocated) (Some nid)) nid) nid (p_virt p0)]
       /\ s_stuck s' = s_stuck s
       /\ forall a, srel s' a ->
            exists cur a', get_pod a pid = Some cur /\ unallocate a cur (p_virt p0) = (a', true)
@@ -1847,9 +1880,9 @@ Section Sess.
     assert (G0 : alookup (p_id p) (s_pods s0) = Some p).
     { unfold s0. sess_cbn. rewrite Fid. unfold get_pod in Gp. apply (alookup_aput_same' _ _ _ _ Gp). }
     destruct (job_update_some j (p_pset p0) (p_jreq p0) (p_status p0) (p_status p0) Allocated Ips) as [j1 Ej1].
-    pose (p1 := set_nd (set_st p Allocated) (Some nid)).
+    pose (p1 := at_node_raw (set_nd (set_st p Allocated) (Some nid)) nid).
     destruct (nr_add_remove R tok R_sym R_trans R_pods R_set_pods R_remove R_rem_add n (p_task p1)) as (n1 & Ea & Back).
-    { unfold p1, set_nd, set_st, pod_with. cbn [p_task]. rewrite !tok_with. exact Ftk. }
+    { unfold p1, at_node_raw, set_nd, set_st, pod_with. cbn [p_task]. rewrite tok_gmem, !tok_with. exact Ftk. }
     { change (t_id (p_task p1)) with (p_id p). rewrite Fid. exact Am. }
     pose (s1 := put_pod (set_jobs s0 (aput jid j1 (s_jobs s0))) (set_st p Allocated)).
     assert (Us : update_status s0 p Allocated = (s1, true)).
@@ -1861,7 +1894,8 @@ Section Sess.
     pose (s3 := ev_alloc (put_node s2 nid n1) p1).
     pose (s' := put_pod (push s3 (OAlloc p1 nid (p_virt p1))) (set_vt p1 true)).
     assert (Ef : allocate s pid nid gs = (s', true)).
-    { unfold allocate. rewrite Gp. fold p s0. rewrite Us. cbn [negb]. fold p1 s2.
+    { unfold allocate. rewrite Gp. fold p s0. rewrite Us. cbn [negb].
+      change (at_node (set_nd (set_st p Allocated) (Some nid)) nid) with p1. fold s2.
       assert (Nl : alookup nid (s_nodes s2) = Some n) by (unfold s2, s1, s0; sess_cbn; exact En).
       rewrite Nl, Ea. reflexivity. }
     destruct (job_update_static _ _ _ _ _ _ _ Ej1) as (Jq & Jn & _).
@@ -1876,10 +1910,10 @@ Section Sess.
       change (p_id (set_vt p1 true)) with (p_id p). change (p_id p1) with (p_id p). change (p_id (set_st p Allocated)) with (p_id p).
       rewrite Fid, !aput_aput. reflexivity. }
     assert (Js : s_jobs s' = aput jid j1 (s_jobs s)) by (unfold s', s3; sess_cbn; cq; reflexivity).
-    assert (Qs : s_queues s' = qeff (s_queues s) (j_queue j) (j_nonpreempt j) (p_qc p0)).
+    assert (Qs : s_queues s' = qeff (s_queues s) (j_queue j) (j_nonpreempt j) (p_qc p1)).
     { unfold s', s3. sess_cbn. unfold ev_alloc.
       rewrite (cq_queues _ _ _ j1) by (change (t_job (p_task p1)) with (t_job (p_task p)); rewrite Fjob; exact Ej').
-      unfold s2, s1, s0. sess_cbn. rewrite Jq, Jn, <- Fqc. reflexivity. }
+      unfold s2, s1, s0. sess_cbn. rewrite Jq, Jn. reflexivity. }
     exists s'. split; [exact Ef|]. split; [exact Ls|]. split; [exact Ks|].
     clearbody s'. intros a (Rn & Rp & Rj & Rq & Rk).
     rewrite Ns in Rn. rewrite Ps in Rp. rewrite Js in Rj. rewrite Qs in Rq. rewrite Ks in Rk.
@@ -1903,9 +1937,10 @@ Section Sess.
       - change (p_id (set_vt p1 true)) with (p_id p). rewrite Fid. exact Ga.
       - change (p_pset (set_vt p1 true)) with (p_pset p). change (p_jreq (set_vt p1 true)) with (p_jreq p).
         rewrite Fps, Fjr. exact Eja2. }
-    assert (Pb : set_vt (set_nd (set_st (set_vt p1 true) Pending) None) (p_virt p0) = p).
-    { transitivity (pod_with p Pending (p_groups p) None (p_virt p0)); [reflexivity|].
-      apply pod_norm; congruence. }
+    pose (pb := at_node_raw p nid).
+    assert (Pb : set_vt (set_nd (set_st (set_vt p1 true) Pending) None) (p_virt p0) = pb).
+    { transitivity (at_node_raw (pod_with p Pending (p_groups p) None (p_virt p0)) nid); [reflexivity|].
+      rewrite (pod_norm p Pending (p_groups p) None (p_virt p0)); [reflexivity|congruence|reflexivity|congruence|congruence]. }
     exists (set_vt p1 true). eexists. split; [exact Ga|]. split.
     { unfold unallocate. rewrite Ua. cbv beta iota.
       change (p_node (set_vt p1 true)) with (Some nid). sess_cbn. rewrite Gna.
@@ -1916,15 +1951,15 @@ Section Sess.
     split; [|split].
     - split; [|split; [|split; [|split]]]; sess_cbn; cq; sess_cbn.
       + apply (amap_rel_put_back R nid n1 na' (s_nodes s) (s_nodes a) Rn). intros v Ev'. rewrite En in Ev'. injection Ev' as <-. exact Rna.
-      + change (p_id (set_st (set_vt p1 true) Pending)) with (p_id p). rewrite Fid, aput_aput.
-        apply (amap_rel_put_back prel pid (set_vt p1 true) p (s_pods s) (s_pods a) Rp). intros v Ev'. unfold get_pod in Gp. rewrite Gp in Ev'. injection Ev' as <-.
-        rewrite Pp. apply prel_groups. intros M. destruct Hgs as [G|G].
-        * unfold p. rewrite G. reflexivity.
+      + change (p_id (set_st (set_vt p1 true) Pending)) with (p_id p). change (p_id pb) with (p_id p). rewrite Fid, aput_aput.
+        apply (amap_rel_put_back prel pid (set_vt p1 true) pb (s_pods s) (s_pods a) Rp). intros v Ev'. unfold get_pod in Gp. rewrite Gp in Ev'. injection Ev' as <-.
+        apply prel_stale; [unfold pb, p; destruct gs; reflexivity|]. intros M. destruct Hgs as [[G F]|G].
+        * unfold pb, p. rewrite G. exact F.
         * unfold pmasked in M. rewrite G, Hst in M. cbn in M. discriminate.
       + apply (amap_rel_put_back jrel jid j1 ja2 (s_jobs s) (s_jobs a) Rj). intros v Ev'. rewrite Ej in Ev'. injection Ev' as <-.
         eapply jrel_trans; [exact Jb|exact Jr].
-      + unfold ev_dealloc. rewrite (cq_queues _ _ _ ja2) by (sess_cbn; rewrite Fjob; exact Ejf). sess_cbn.
-        rewrite <- Rq, Jq2, Jn2, <- Jqa, <- Jna, Jq, Jn, Fqc. symmetry. apply qeff_back.
+      + unfold ev_dealloc. rewrite (cq_queues _ _ _ ja2) by (sess_cbn; change (t_job (p_task pb)) with (t_job (p_task p)); rewrite Fjob; exact Ejf). sess_cbn.
+        change (p_qc pb) with (p_qc p1). rewrite <- Rq, Jq2, Jn2, <- Jqa, <- Jna, Jq, Jn. symmetry. apply qeff_back.
       + exact Rk.
     - sess_cbn. cq. reflexivity.
     - sess_cbn. cq. reflexivity.
@@ -1936,8 +1971,8 @@ Section Sess.
   Proof.
     unfold unevict. destruct (get_pod a p) as [p0|]; [|reflexivity].
     pose proof (update_status_frame a p0 prev) as (Fl & _ & Fn & _).
-    destruct (update_status a p0 prev) as [s1 ok]. cbn [fst] in Fl, Fn. cq. sess_cbn.
-    destruct (alookup nid (s_nodes s1)) as [n|]; [|exact Fl].
+    destruct (update_status a p0 prev) as [s1 ok]. cbn [fst] in Fl, Fn.
+    destruct (alookup nid (s_nodes s1)) as [n|]; cbv zeta; cq; sess_cbn; [|exact Fl].
     destruct (if amem p (n_pods n) then _ else _); sess_cbn; exact Fl.
   Qed.
 
@@ -2005,9 +2040,9 @@ Section Sess.
          first_valid_evict (s_log s) (s_log s) (p_id p) 0 = Some (Some i)
          /\ nth_error (s_log s) i = Some (OEvict (p_id p) prev nid pg pv) /\ op_valid (s_log s) i = Some true
          /\ active_allocated prev = true /\ p_node p = Some nid
-         /\ (p_groups p = pg \/ is_shared (p_task p) = true)
+         /\ ((p_groups p = pg /\ at_node_raw p nid = p) \/ is_shared (p_task p) = true)
          /\ alookup nid (s_nodes s) = Some n /\ sorted_keys (n_pods n)
-         /\ alookup (p_id p) (n_pods n) = Some (task_with (p_task p) Releasing pg).
+         /\ alookup (p_id p) (n_pods n) = Some (task_with (p_task (at_node_raw p nid)) Releasing pg).
   Proof.
     unfold evicted_ok. intros H.
     apply andb_true_iff in H. destruct H as [H Hm].
@@ -2028,7 +2063,8 @@ Section Sess.
     split; [exact Hs|]. split; [exact Hv|]. split; [apply indexed_facts; exact Hi|]. split; [exact Hp|].
     exists i, a, b, c, d, n. split; [reflexivity|]. split; [exact En|]. split; [exact V|]. split; [exact Ha|].
     split; [reflexivity|]. split.
-    { apply orb_true_iff in Hg. destruct Hg as [G|G]; [left; apply list_pos_eqb_eq; exact G|right; exact G]. }
+    { apply orb_true_iff in Hg. destruct Hg as [G|G]; [left|right; exact G].
+      apply andb_true_iff in G. destruct G as [G F]. split; [apply list_pos_eqb_eq; exact G|apply fresh_on_eq; exact F]. }
     split; [exact Enn|]. split; [apply sortedb_sorted; exact Hsd|exact Ec].
   Qed.
 
@@ -2042,9 +2078,9 @@ Section Sess.
     LogOK (s_log s1) ->
     get_pod s1 (p_id p) = Some p -> tok (p_task p) = true ->
     p_status p = Releasing -> p_virt p = true -> Indexed s1 p j -> active_allocated prev = true ->
-    p_node p = Some nid -> (p_groups p = pg \/ is_shared (p_task p) = true) ->
+    p_node p = Some nid -> ((p_groups p = pg /\ at_node_raw p nid = p) \/ is_shared (p_task p) = true) ->
     alookup nid (s_nodes s1) = Some n -> sorted_keys (n_pods n) ->
-    alookup (p_id p) (n_pods n) = Some (task_with (p_task p) Releasing pg) ->
+    alookup (p_id p) (n_pods n) = Some (task_with (p_task (at_node_raw p nid)) Releasing pg) ->
     nth_error (s_log s1) i = Some (OEvict (p_id p) prev nid pg pv) -> op_valid (s_log s1) i = Some true ->
     let s' := push (unevict s1 (p_id p) prev nid pg pv) (OUndo i) in
     s_stuck s' = s_stuck s1 /\ s_log s' = s_log s1 ++ [OUndo i] /\ LogOK (s_log s')
@@ -2073,6 +2109,15 @@ Section Sess.
 
   Lemma shared_gs_or p gs : shared_gs p gs = true -> gs = None \/ is_shared (p_task p) = true.
   Proof. unfold shared_gs. destruct gs; [intros H; apply andb_true_iff in H; right; apply H|left; reflexivity]. Qed.
+
+  Lemma hgs_of p gs nid :
+    shared_gs p gs = true -> (is_shared (p_task p) || fresh_on p nid) = true ->
+    (gs = None /\ at_node_raw p nid = p) \/ is_shared (p_task p) = true.
+  Proof.
+    intros Hs Hf. destruct (is_shared (p_task p)) eqn:E; [right; reflexivity|]. left.
+    cbn [orb] in Hf. split; [|apply fresh_on_eq; exact Hf].
+    unfold shared_gs in Hs. rewrite E in Hs. destruct gs; [discriminate|reflexivity].
+  Qed.
 
   Lemma srel_put_pods s x p' p0 :
     alookup (p_id p') (s_pods s) = Some p0 -> p_id x = p_id p' -> prel p0 p' -> srel s (put_pod (put_pod s x) p').
@@ -2117,8 +2162,9 @@ Section Sess.
       apply andb_true_iff in W. destruct W as [W Wpl].
       apply andb_true_iff in W. destruct W as [W Wgs].
       apply andb_true_iff in W. destruct W as [Wid Wtk].
+      apply andb_true_iff in Wsd. destruct Wsd as [Wsd Wfr].
       apply Pos.eqb_eq in Wid. apply sortedb_sorted in Wsd.
-      pose proof (shared_gs_or _ _ Wgs) as Hgs.
+      pose proof (hgs_of _ _ _ Wgs Wfr) as Hgs.
       destruct (status_eqb (p_status p0) Pending) eqn:Est.
       + (* a Pending pod *)
         apply status_eqb_eq in Est.
@@ -2160,7 +2206,7 @@ Section Sess.
                unfold p in X. destruct gs; exact X. }
              destruct gs as [g|].
              2:{ unfold shared_gs in Wgs. rewrite Hsh in Wgs. discriminate. }
-             assert (Hc' : c = task_with (p_task p0) Releasing (t_groups c)) by (rewrite Hc; reflexivity).
+             assert (Hc' : c = task_with (p_task (at_node_raw p0 nid)) Releasing (t_groups c)) by (rewrite Hc; reflexivity).
              destruct (link_pipe_move s pid p0 g nid n j c Gp Wid Wtk Ij St Vt Hsh En Wsd Ec Hc') as (s' & Efw & Ls & Kk & Back).
              exists s'. eexists. unfold p. rewrite Efw. split; [reflexivity|]. split; [congruence|]. split; [exact Ls|]. split; [reflexivity|].
              split; [rewrite Ls; apply LogOK_app_prim; [exact OK|exact I]|].
@@ -2185,7 +2231,7 @@ Section Sess.
              assert (Ls1 : s_log s1 = s_log s) by reflexivity.
              rewrite Ls1, Ef.
              assert (Pr : prel p0 p1).
-             { rewrite P1. apply prel_groups. intros M. destruct Gor as [G|G]; [symmetry; exact G|].
+             { rewrite P1. apply prel_groups. intros M. destruct Gor as [[G _]|G]; [symmetry; exact G|].
                unfold pmasked in M. rewrite G, St, Vt in M. cbn in M. discriminate. }
              assert (Sr1 : srel s s1).
              { unfold s1. apply srel_put_pods with (p0 := p0); [rewrite Id1; exact Gp|unfold p, p1; destruct gs; reflexivity|exact Pr]. }
@@ -2201,9 +2247,11 @@ Section Sess.
              assert (A4 : p_virt p1 = true) by (rewrite P1; exact Vt).
              assert (A5 : Indexed s1 p1 j) by (rewrite P1; exact Ij).
              assert (A6 : p_node p1 = Some nid) by (rewrite P1; exact Epn).
-             assert (A7 : p_groups p1 = pg \/ is_shared (p_task p1) = true) by (left; rewrite P1; reflexivity).
+             assert (A7 : (p_groups p1 = pg /\ at_node_raw p1 nid = p1) \/ is_shared (p_task p1) = true).
+             { destruct Gor as [[G F]|G]; [left|right; rewrite P1; exact G].
+               rewrite P1. split; [reflexivity|]. rewrite <- G. unfold set_gs. rewrite pod_with_same. exact F. }
              assert (A8 : alookup nid (s_nodes s1) = Some n) by exact En.
-             assert (A9 : alookup (p_id p1) (n_pods n) = Some (task_with (p_task p1) Releasing pg)).
+             assert (A9 : alookup (p_id p1) (n_pods n) = Some (task_with (p_task (at_node_raw p1 nid)) Releasing pg)).
              { rewrite Id1, P1, Ec, Hc. reflexivity. }
              assert (A10 : nth_error (s_log s1) i = Some (OEvict (p_id p1) prev nid pg pv)) by (rewrite Ls1, Id1; exact Ent).
              assert (A11 : op_valid (s_log s1) i = Some true) by (rewrite Ls1; exact V).
@@ -2240,14 +2288,15 @@ Section Sess.
       apply andb_true_iff in W. destruct W as [W Wgs].
       apply andb_true_iff in W. destruct W as [Wid Wtk].
       apply Pos.eqb_eq in Wid.
+      apply andb_true_iff in Wsd. destruct Wsd as [Wsd Wfr].
       destruct (p_node p0) eqn:Epn; [discriminate|].
       destruct (indexed_facts _ _ Wix) as [j Ij].
-      destruct (link_alloc s pid p0 gs nid n j Gp Wid Wtk Ij Wst Epn (shared_gs_or _ _ Wgs) En Wam) as (s' & Efw & Ls & Kk & Back).
+      destruct (link_alloc s pid p0 gs nid n j Gp Wid Wtk Ij Wst Epn (hgs_of _ _ _ Wgs Wfr) En Wam) as (s' & Efw & Ls & Kk & Back).
       exists s'. eexists. rewrite Efw. split; [reflexivity|]. split; [congruence|]. split; [exact Ls|].
       split; [cbn [entry_for]; destruct gs; exact Wid|].
       split; [rewrite Ls; apply LogOK_app_prim; [exact OK|exact I]|].
       intros L0 a OK0 Pf Lt (Sr & T & La & Tkk).
-      set (cl := set_nd (set_st match gs with Some g => set_gs p0 g | None => p0 end Allocated) (Some nid)) in *.
+      set (cl := at_node_raw (set_nd (set_st match gs with Some g => set_gs p0 g | None => p0 end Allocated) (Some nid)) nid) in *.
       assert (Een : nth_error (s_log a) (length (s_log s)) = Some (OAlloc cl nid (p_virt p0))).
       { rewrite La. eapply act_entry; [exact Pf|]. rewrite Ls. apply nth_snoc. }
       assert (Va : op_valid (s_log a) (length (s_log s)) = Some true).
@@ -2759,11 +2808,11 @@ Definition any_task (t : task) : bool := true.
 Definition cmd_link_n :=
   cmd_link neq any_task neq_refl neq_sym neq_trans neq_pods neq_set_pods
     (fun a b t _ => neq_add a b t) (fun a b t _ => neq_remove a b t) (fun a t _ => neq_rem_add a t)
-    (fun a t _ => neq_add_rem a t) (fun t s g => eq_refl).
+    (fun a t _ => neq_add_rem a t) (fun t s g => eq_refl) (fun t m => eq_refl).
 Definition inv_step_n :=
   inv_step neq any_task neq_refl neq_sym neq_trans neq_pods neq_set_pods
     (fun a b t _ => neq_add a b t) (fun a b t _ => neq_remove a b t) (fun a t _ => neq_rem_add a t)
-    (fun a t _ => neq_add_rem a t) (fun t s g => eq_refl).
+    (fun a t _ => neq_add_rem a t) (fun t s g => eq_refl) (fun t m => eq_refl).
 Definition Hist_rollback_n := Hist_rollback neq.
 
 Lemma wf_placing_pipe tok stk s pid nid gs upd :
@@ -2858,6 +2907,7 @@ Proof.
   - intros a t _. apply neq_rem_add.
   - intros a t _. apply neq_add_rem.
   - reflexivity.
+  - reflexivity.
 Qed.
 
 Theorem discard_restores_partial fails S prog :
@@ -2870,6 +2920,7 @@ Proof.
   - intros a b t _. apply neq_remove.
   - intros a t _. apply neq_rem_add.
   - intros a t _. apply neq_add_rem.
+  - reflexivity.
   - reflexivity.
 Qed.
 
@@ -2892,6 +2943,7 @@ Proof.
   - intros a t T. apply eq_rem_add. exact T.
   - intros a t T. apply eq_add_rem. exact T.
   - exact nonshared_with.
+  - reflexivity.
 Qed.
 
 Theorem discard_restores_nonshared fails S prog :
@@ -2910,6 +2962,7 @@ Proof.
   - intros a t T. apply eq_rem_add. exact T.
   - intros a t T. apply eq_add_rem. exact T.
   - exact nonshared_with.
+  - reflexivity.
 Qed.
 
 (** * What the relation says about the projection *)
@@ -2940,7 +2993,8 @@ Lemma srel_pods R x y pid : srel R x y ->
 Proof.
   intros (_ & P & _). pose proof (amap_rel_lookup prel _ _ pid P) as L. unfold get_pod.
   destruct (alookup pid (s_pods x)) as [a|], (alookup pid (s_pods y)) as [b|]; try exact L.
-  pose proof (prel_fields _ _ L) as (F1 & F2 & F3 & _). destruct L as [_ G]. repeat split; assumption.
+  pose proof (prel_fields _ _ L) as (F1 & F2 & F3 & _). destruct L as [_ G].
+  split; [exact F1|]. split; [exact F2|]. split; [exact F3|]. intros M. rewrite (G M). reflexivity.
 Qed.
 Lemma srel_nodes R x y nid : srel R x y ->
   match alookup nid (s_nodes x), alookup nid (s_nodes y) with
@@ -2960,20 +3014,23 @@ Proof. intros (N & _). apply amap_rel_eq. exact N. Qed.
     programs run on the real framework.Statement on every check. *)
 Open Scope Z_scope.
 Definition w1_init : sess :=
-  (mkSess [(1%positive, (mkNode (mkRes 16000%Z 68719476736%Z 4%Z 110%Z 0%Z 0%Z) (mkRes 15700%Z 68716331008%Z 1%Z 107%Z 0%Z 0%Z) (mkRes 300%Z 3145728%Z 2%Z 3%Z 0%Z 0%Z) (mkRes 100%Z 1048576%Z 1%Z 1%Z 0%Z 0%Z) 4%Z 100%Z [(3%positive, (mkTask 3%positive 2%positive Running KFraction (mkRes 100%Z 1048576%Z 0%Z 1%Z 0%Z 0%Z) 1%Z 50%Z [16%positive] false false)); (5%positive, (mkTask 5%positive 4%positive Releasing KRegular (mkRes 100%Z 1048576%Z 1%Z 1%Z 0%Z 0%Z) 1%Z 0%Z [] false false)); (7%positive, (mkTask 7%positive 6%positive Running KRegular (mkRes 100%Z 1048576%Z 1%Z 1%Z 0%Z 0%Z) 1%Z 0%Z [] false false))] [(16%positive, 50%Z)] [(16%positive, 50%Z)] [] []))] [(3%positive, (mkPod (mkTask 3%positive 2%positive Running KFraction (mkRes 100%Z 1048576%Z 0%Z 1%Z 0%Z 0%Z) 1%Z 50%Z [16%positive] false false) (Some 1%positive) false 10%positive (mkRes 100%Z 1048576%Z 500%Z 0%Z 0%Z 0%Z) (mkRes 100%Z 1048576%Z 500%Z 0%Z 0%Z 0%Z))); (5%positive, (mkPod (mkTask 5%positive 4%positive Releasing KRegular (mkRes 100%Z 1048576%Z 1%Z 1%Z 0%Z 0%Z) 1%Z 0%Z [] false false) (Some 1%positive) false 11%positive (mkRes 100%Z 1048576%Z 1000%Z 0%Z 0%Z 0%Z) (mkRes 100%Z 1048576%Z 1000%Z 0%Z 0%Z 0%Z))); (7%positive, (mkPod (mkTask 7%positive 6%positive Running KRegular (mkRes 100%Z 1048576%Z 1%Z 1%Z 0%Z 0%Z) 1%Z 0%Z [] false false) (Some 1%positive) false 12%positive (mkRes 100%Z 1048576%Z 1000%Z 0%Z 0%Z 0%Z) (mkRes 100%Z 1048576%Z 1000%Z 0%Z 0%Z 0%Z))); (9%positive, (mkPod (mkTask 9%positive 8%positive Pending KRegular (mkRes 100%Z 1048576%Z 2%Z 1%Z 0%Z 0%Z) 2%Z 0%Z [] false false) None false 13%positive (mkRes 100%Z 1048576%Z 2000%Z 0%Z 0%Z 0%Z) (mkRes 100%Z 1048576%Z 2000%Z 0%Z 0%Z 0%Z)))] [(2%positive, (mkJob 15%positive false (mkRes 100%Z 1048576%Z 500%Z 0%Z 0%Z 0%Z) 1%Z [(7%positive, 1%Z)] [(10%positive, (mkPsc 1%Z 1%Z 1%Z [(1%positive, 0%Z); (2%positive, 0%Z)]))])); (4%positive, (mkJob 15%positive false (mkRes 0%Z 0%Z 0%Z 0%Z 0%Z 0%Z) 0%Z [(8%positive, 1%Z)] [(11%positive, (mkPsc 0%Z 1%Z 0%Z [(1%positive, 0%Z); (2%positive, 0%Z)]))])); (6%positive, (mkJob 15%positive false (mkRes 100%Z 1048576%Z 1000%Z 0%Z 0%Z 0%Z) 1%Z [(7%positive, 1%Z)] [(12%positive, (mkPsc 1%Z 1%Z 1%Z [(1%positive, 0%Z); (2%positive, 0%Z)]))])); (8%positive, (mkJob 15%positive false (mkRes 0%Z 0%Z 0%Z 0%Z 0%Z 0%Z) 0%Z [(1%positive, 1%Z)] [(13%positive, (mkPsc 0%Z 0%Z 1%Z [(1%positive, 1%Z); (2%positive, 0%Z)]))]))] [(14%positive, (mkQ None (mkRes 200%Z 2097152%Z 1500%Z 0%Z 0%Z 0%Z) (mkRes 0%Z 0%Z 0%Z 0%Z 0%Z 0%Z))); (15%positive, (mkQ (Some 14%positive) (mkRes 200%Z 2097152%Z 1500%Z 0%Z 0%Z 0%Z) (mkRes 0%Z 0%Z 0%Z 0%Z 0%Z 0%Z)))] [] 0%nat false).
+  (mkSess [(1%positive, (mkNode (mkRes 16000%Z 68719476736%Z 4%Z 110%Z 0%Z 0%Z) (mkRes 15700%Z 68716331008%Z 1%Z 107%Z 0%Z 0%Z) (mkRes 300%Z 3145728%Z 2%Z 3%Z 0%Z 0%Z) (mkRes 100%Z 1048576%Z 1%Z 1%Z 0%Z 0%Z) 4%Z 100%Z [(3%positive, (mkTask 3%positive 2%positive Running KFraction (mkRes 100%Z 1048576%Z 0%Z 1%Z 0%Z 0%Z) 1%Z 50%Z [16%positive] false false)); (5%positive, (mkTask 5%positive 4%positive Releasing KRegular (mkRes 100%Z 1048576%Z 1%Z 1%Z 0%Z 0%Z) 1%Z 0%Z [] false false)); (7%positive, (mkTask 7%positive 6%positive Running KRegular (mkRes 100%Z 1048576%Z 1%Z 1%Z 0%Z 0%Z) 1%Z 0%Z [] false false))] [(16%positive, 50%Z)] [(16%positive, 50%Z)] [] []))] [(3%positive, (mkPod (mkTask 3%positive 2%positive Running KFraction (mkRes 100%Z 1048576%Z 0%Z 1%Z 0%Z 0%Z) 1%Z 50%Z [16%positive] false false) (Some 1%positive) false 10%positive (mkRes 100%Z 1048576%Z 500%Z 0%Z 0%Z 0%Z) (mkRes 100%Z 1048576%Z 500%Z 0%Z 0%Z 0%Z) [(1%positive, 50%Z)] [(1%positive, (mkRes 100%Z 1048576%Z 500%Z 0%Z 0%Z 0%Z))])); (5%positive, (mkPod (mkTask 5%positive 4%positive Releasing KRegular (mkRes 100%Z 1048576%Z 1%Z 1%Z 0%Z 0%Z) 1%Z 0%Z [] false false) (Some 1%positive) false 11%positive (mkRes 100%Z 1048576%Z 1000%Z 0%Z 0%Z 0%Z) (mkRes 100%Z 1048576%Z 1000%Z 0%Z 0%Z 0%Z) [(1%positive, 0%Z)] [(1%positive, (mkRes 100%Z 1048576%Z 1000%Z 0%Z 0%Z 0%Z))])); (7%positive, (mkPod (mkTask 7%positive 6%positive Running KRegular (mkRes 100%Z 1048576%Z 1%Z 1%Z 0%Z 0%Z) 1%Z 0%Z [] false false) (Some 1%positive) false 12%positive (mkRes 100%Z 1048576%Z 1000%Z 0%Z 0%Z 0%Z) (mkRes 100%Z 1048576%Z 1000%Z 0%Z 0%Z 0%Z) [(1%positive, 0%Z)] [(1%positive, (mkRes 100%Z 1048576%Z 1000%Z 0%Z 0%Z 0%Z))])); (9%positive, (mkPod (mkTask 9%positive 8%positive Pending KRegular (mkRes 100%Z 1048576%Z 2%Z 1%Z 0%Z 0%Z) 2%Z 0%Z [] false false) None false 13%positive (mkRes 100%Z 1048576%Z 2000%Z 0%Z 0%Z 0%Z) (mkRes 100%Z 1048576%Z 2000%Z 0%Z 0%Z 0%Z) [(1%positive, 0%Z)] [(1%positive, (mkRes 100%Z 1048576%Z 2000%Z 0%Z 0%Z 0%Z))]))] [(2%positive, (mkJob 15%positive false (mkRes 100%Z 1048576%Z 500%Z 0%Z 0%Z 0%Z) 1%Z [(7%positive, 1%Z)] [(10%positive, (mkPsc 1%Z 1%Z 1%Z [(1%positive, 0%Z); (2%positive, 0%Z)]))])); (4%positive, (mkJob 15%positive false (mkRes 0%Z 0%Z 0%Z 0%Z 0%Z 0%Z) 0%Z [(8%positive, 1%Z)] [(11%positive, (mkPsc 0%Z 1%Z 0%Z [(1%positive, 0%Z); (2%positive, 0%Z)]))])); (6%positive, (mkJob 15%positive false (mkRes 100%Z 1048576%Z 1000%Z 0%Z 0%Z 0%Z) 1%Z [(7%positive, 1%Z)] [(12%positive, (mkPsc 1%Z 1%Z 1%Z [(1%positive, 0%Z); (2%positive, 0%Z)]))])); (8%positive, (mkJob 15%positive false (mkRes 0%Z 0%Z 0%Z 0%Z 0%Z 0%Z) 0%Z [(1%positive, 1%Z)] [(13%positive, (mkPsc 0%Z 0%Z 1%Z [(1%positive, 1%Z); (2%positive, 0%Z)]))]))] [(14%positive, (mkQ None (mkRes 200%Z 2097152%Z 1500%Z 0%Z 0%Z 0%Z) (mkRes 0%Z 0%Z 0%Z 0%Z 0%Z 0%Z))); (15%positive, (mkQ (Some 14%positive) (mkRes 200%Z 2097152%Z 1500%Z 0%Z 0%Z 0%Z) (mkRes 0%Z 0%Z 0%Z 0%Z 0%Z 0%Z)))] [] 0%nat false).
 Definition w1_prog : list cmd := [(Pipeline 9%positive 1%positive None false); Checkpoint; (Evict 3%positive); (Rollback 1%nat); Discard].
 Definition w2_init : sess :=
-  (mkSess [(1%positive, (mkNode (mkRes 16000%Z 68719476736%Z 4%Z 110%Z 0%Z 0%Z) (mkRes 16000%Z 68719476736%Z 4%Z 110%Z 0%Z 0%Z) (mkRes 0%Z 0%Z 0%Z 0%Z 0%Z 0%Z) (mkRes 0%Z 0%Z 0%Z 0%Z 0%Z 0%Z) 4%Z 100%Z [] [] [] [] []))] [(3%positive, (mkPod (mkTask 3%positive 2%positive Pending KFraction (mkRes 100%Z 1048576%Z 0%Z 1%Z 0%Z 0%Z) 1%Z 50%Z [] false false) None false 4%positive (mkRes 100%Z 1048576%Z 500%Z 0%Z 0%Z 0%Z) (mkRes 100%Z 1048576%Z 500%Z 0%Z 0%Z 0%Z)))] [(2%positive, (mkJob 6%positive false (mkRes 0%Z 0%Z 0%Z 0%Z 0%Z 0%Z) 0%Z [(1%positive, 1%Z)] [(4%positive, (mkPsc 0%Z 0%Z 1%Z [(1%positive, 1%Z); (2%positive, 0%Z)]))]))] [(5%positive, (mkQ None (mkRes 0%Z 0%Z 0%Z 0%Z 0%Z 0%Z) (mkRes 0%Z 0%Z 0%Z 0%Z 0%Z 0%Z))); (6%positive, (mkQ (Some 5%positive) (mkRes 0%Z 0%Z 0%Z 0%Z 0%Z 0%Z) (mkRes 0%Z 0%Z 0%Z 0%Z 0%Z 0%Z)))] [] 0%nat false).
+  (mkSess [(1%positive, (mkNode (mkRes 16000%Z 68719476736%Z 4%Z 110%Z 0%Z 0%Z) (mkRes 16000%Z 68719476736%Z 4%Z 110%Z 0%Z 0%Z) (mkRes 0%Z 0%Z 0%Z 0%Z 0%Z 0%Z) (mkRes 0%Z 0%Z 0%Z 0%Z 0%Z 0%Z) 4%Z 100%Z [] [] [] [] []))] [(3%positive, (mkPod (mkTask 3%positive 2%positive Pending KFraction (mkRes 100%Z 1048576%Z 0%Z 1%Z 0%Z 0%Z) 1%Z 50%Z [] false false) None false 4%positive (mkRes 100%Z 1048576%Z 500%Z 0%Z 0%Z 0%Z) (mkRes 100%Z 1048576%Z 500%Z 0%Z 0%Z 0%Z) [(1%positive, 50%Z)] [(1%positive, (mkRes 100%Z 1048576%Z 500%Z 0%Z 0%Z 0%Z))]))] [(2%positive, (mkJob 6%positive false (mkRes 0%Z 0%Z 0%Z 0%Z 0%Z 0%Z) 0%Z [(1%positive, 1%Z)] [(4%positive, (mkPsc 0%Z 0%Z 1%Z [(1%positive, 1%Z); (2%positive, 0%Z)]))]))] [(5%positive, (mkQ None (mkRes 0%Z 0%Z 0%Z 0%Z 0%Z 0%Z) (mkRes 0%Z 0%Z 0%Z 0%Z 0%Z 0%Z))); (6%positive, (mkQ (Some 5%positive) (mkRes 0%Z 0%Z 0%Z 0%Z 0%Z 0%Z) (mkRes 0%Z 0%Z 0%Z 0%Z 0%Z 0%Z)))] [] 0%nat false).
 Definition w2_prog : list cmd := [Checkpoint; (Pipeline 3%positive 1%positive (Some [7%positive]) false); (Rollback 0%nat)].
 Definition w3_init : sess :=
-  (mkSess [(1%positive, (mkNode (mkRes 16000%Z 68719476736%Z 4%Z 110%Z 0%Z 0%Z) (mkRes 15900%Z 68718428160%Z 3%Z 109%Z 0%Z 0%Z) (mkRes 100%Z 1048576%Z 1%Z 1%Z 0%Z 0%Z) (mkRes 0%Z 0%Z 0%Z 0%Z 0%Z 0%Z) 4%Z 100%Z [(3%positive, (mkTask 3%positive 2%positive Running KRegular (mkRes 100%Z 1048576%Z 1%Z 1%Z 0%Z 0%Z) 1%Z 0%Z [] false false))] [] [] [] []))] [(3%positive, (mkPod (mkTask 3%positive 2%positive Running KRegular (mkRes 100%Z 1048576%Z 1%Z 1%Z 0%Z 0%Z) 1%Z 0%Z [] false false) (Some 1%positive) false 4%positive (mkRes 100%Z 1048576%Z 1000%Z 0%Z 0%Z 0%Z) (mkRes 100%Z 1048576%Z 1000%Z 0%Z 0%Z 0%Z)))] [(2%positive, (mkJob 6%positive false (mkRes 100%Z 1048576%Z 1000%Z 0%Z 0%Z 0%Z) 1%Z [(7%positive, 1%Z)] [(4%positive, (mkPsc 1%Z 1%Z 1%Z [(1%positive, 0%Z); (2%positive, 0%Z)]))]))] [(5%positive, (mkQ None (mkRes 100%Z 1048576%Z 1000%Z 0%Z 0%Z 0%Z) (mkRes 0%Z 0%Z 0%Z 0%Z 0%Z 0%Z))); (6%positive, (mkQ (Some 5%positive) (mkRes 100%Z 1048576%Z 1000%Z 0%Z 0%Z 0%Z) (mkRes 0%Z 0%Z 0%Z 0%Z 0%Z 0%Z)))] [] 0%nat false).
+  (mkSess [(1%positive, (mkNode (mkRes 16000%Z 68719476736%Z 4%Z 110%Z 0%Z 0%Z) (mkRes 15900%Z 68718428160%Z 3%Z 109%Z 0%Z 0%Z) (mkRes 100%Z 1048576%Z 1%Z 1%Z 0%Z 0%Z) (mkRes 0%Z 0%Z 0%Z 0%Z 0%Z 0%Z) 4%Z 100%Z [(3%positive, (mkTask 3%positive 2%positive Running KRegular (mkRes 100%Z 1048576%Z 1%Z 1%Z 0%Z 0%Z) 1%Z 0%Z [] false false))] [] [] [] []))] [(3%positive, (mkPod (mkTask 3%positive 2%positive Running KRegular (mkRes 100%Z 1048576%Z 1%Z 1%Z 0%Z 0%Z) 1%Z 0%Z [] false false) (Some 1%positive) false 4%positive (mkRes 100%Z 1048576%Z 1000%Z 0%Z 0%Z 0%Z) (mkRes 100%Z 1048576%Z 1000%Z 0%Z 0%Z 0%Z) [(1%positive, 0%Z)] [(1%positive, (mkRes 100%Z 1048576%Z 1000%Z 0%Z 0%Z 0%Z))]))] [(2%positive, (mkJob 6%positive false (mkRes 100%Z 1048576%Z 1000%Z 0%Z 0%Z 0%Z) 1%Z [(7%positive, 1%Z)] [(4%positive, (mkPsc 1%Z 1%Z 1%Z [(1%positive, 0%Z); (2%positive, 0%Z)]))]))] [(5%positive, (mkQ None (mkRes 100%Z 1048576%Z 1000%Z 0%Z 0%Z 0%Z) (mkRes 0%Z 0%Z 0%Z 0%Z 0%Z 0%Z))); (6%positive, (mkQ (Some 5%positive) (mkRes 100%Z 1048576%Z 1000%Z 0%Z 0%Z 0%Z) (mkRes 0%Z 0%Z 0%Z 0%Z 0%Z 0%Z)))] [] 0%nat false).
 Definition w3_prog : list cmd := [(Evict 3%positive); (Evict 3%positive); Commit].
 Definition w9_init : sess :=
-  (mkSess [(1%positive, (mkNode (mkRes 16000%Z 68719476736%Z 4%Z 110%Z 0%Z 0%Z) (mkRes 15700%Z 68716331008%Z 1%Z 107%Z 0%Z 0%Z) (mkRes 300%Z 3145728%Z 1%Z 3%Z 0%Z 0%Z) (mkRes 100%Z 1048576%Z 1%Z 1%Z 0%Z 0%Z) 4%Z 100%Z [(3%positive, (mkTask 3%positive 2%positive Running KFraction (mkRes 100%Z 1048576%Z 0%Z 1%Z 0%Z 0%Z) 1%Z 50%Z [16%positive] false false)); (5%positive, (mkTask 5%positive 4%positive Running KRegular (mkRes 100%Z 1048576%Z 1%Z 1%Z 0%Z 0%Z) 1%Z 0%Z [] false false)); (7%positive, (mkTask 7%positive 6%positive Releasing KFraction (mkRes 100%Z 1048576%Z 0%Z 1%Z 0%Z 0%Z) 1%Z 25%Z [17%positive] false false))] [(16%positive, 50%Z); (17%positive, 25%Z)] [(16%positive, 50%Z); (17%positive, 25%Z)] [(17%positive, 25%Z)] [(17%positive, tt)]))] [(3%positive, (mkPod (mkTask 3%positive 2%positive Running KFraction (mkRes 100%Z 1048576%Z 0%Z 1%Z 0%Z 0%Z) 1%Z 50%Z [16%positive] false false) (Some 1%positive) false 10%positive (mkRes 100%Z 1048576%Z 500%Z 0%Z 0%Z 0%Z) (mkRes 100%Z 1048576%Z 500%Z 0%Z 0%Z 0%Z))); (5%positive, (mkPod (mkTask 5%positive 4%positive Running KRegular (mkRes 100%Z 1048576%Z 1%Z 1%Z 0%Z 0%Z) 1%Z 0%Z [] false false) (Some 1%positive) false 11%positive (mkRes 100%Z 1048576%Z 1000%Z 0%Z 0%Z 0%Z) (mkRes 100%Z 1048576%Z 1000%Z 0%Z 0%Z 0%Z))); (7%positive, (mkPod (mkTask 7%positive 6%positive Releasing KFraction (mkRes 100%Z 1048576%Z 0%Z 1%Z 0%Z 0%Z) 1%Z 25%Z [17%positive] false false) (Some 1%positive) false 12%positive (mkRes 100%Z 1048576%Z 250%Z 0%Z 0%Z 0%Z) (mkRes 100%Z 1048576%Z 250%Z 0%Z 0%Z 0%Z))); (9%positive, (mkPod (mkTask 9%positive 8%positive Pending KFraction (mkRes 100%Z 1048576%Z 0%Z 1%Z 0%Z 0%Z) 1%Z 50%Z [] false false) None false 13%positive (mkRes 100%Z 1048576%Z 500%Z 0%Z 0%Z 0%Z) (mkRes 100%Z 1048576%Z 500%Z 0%Z 0%Z 0%Z)))] [(2%positive, (mkJob 15%positive false (mkRes 100%Z 1048576%Z 500%Z 0%Z 0%Z 0%Z) 1%Z [(7%positive, 1%Z)] [(10%positive, (mkPsc 1%Z 1%Z 1%Z [(1%positive, 0%Z); (2%positive, 0%Z)]))])); (4%positive, (mkJob 15%positive false (mkRes 100%Z 1048576%Z 1000%Z 0%Z 0%Z 0%Z) 1%Z [(7%positive, 1%Z)] [(11%positive, (mkPsc 1%Z 1%Z 1%Z [(1%positive, 0%Z); (2%positive, 0%Z)]))])); (6%positive, (mkJob 15%positive false (mkRes 0%Z 0%Z 0%Z 0%Z 0%Z 0%Z) 0%Z [(8%positive, 1%Z)] [(12%positive, (mkPsc 0%Z 1%Z 0%Z [(1%positive, 0%Z); (2%positive, 0%Z)]))])); (8%positive, (mkJob 15%positive false (mkRes 0%Z 0%Z 0%Z 0%Z 0%Z 0%Z) 0%Z [(1%positive, 1%Z)] [(13%positive, (mkPsc 0%Z 0%Z 1%Z [(1%positive, 1%Z); (2%positive, 0%Z)]))]))] [(14%positive, (mkQ None (mkRes 200%Z 2097152%Z 1500%Z 0%Z 0%Z 0%Z) (mkRes 0%Z 0%Z 0%Z 0%Z 0%Z 0%Z))); (15%positive, (mkQ (Some 14%positive) (mkRes 200%Z 2097152%Z 1500%Z 0%Z 0%Z 0%Z) (mkRes 0%Z 0%Z 0%Z 0%Z 0%Z 0%Z)))] [] 0%nat false).
-Definition w9_prog : list cmd := [Checkpoint; (Pipeline 9%positive 1%positive (Some [17%positive]) false); (Rollback 0%nat)].
+  (mkSess [(1%positive, (mkNode (mkRes 16000%Z 68719476736%Z 4%Z 110%Z 0%Z 0%Z) (mkRes 15700%Z 68716331008%Z 1%Z 107%Z 0%Z 0%Z) (mkRes 300%Z 3145728%Z 1%Z 3%Z 0%Z 0%Z) (mkRes 100%Z 1048576%Z 1%Z 1%Z 0%Z 0%Z) 4%Z 100%Z [(3%positive, (mkTask 3%positive 2%positive Running KFraction (mkRes 100%Z 1048576%Z 0%Z 1%Z 0%Z 0%Z) 1%Z 50%Z [17%positive] false false)); (5%positive, (mkTask 5%positive 4%positive Running KRegular (mkRes 100%Z 1048576%Z 1%Z 1%Z 0%Z 0%Z) 1%Z 0%Z [] false false)); (7%positive, (mkTask 7%positive 6%positive Releasing KFraction (mkRes 100%Z 1048576%Z 0%Z 1%Z 0%Z 0%Z) 1%Z 25%Z [16%positive] false false))] [(16%positive, 25%Z); (17%positive, 50%Z)] [(16%positive, 25%Z); (17%positive, 50%Z)] [(16%positive, 25%Z)] [(16%positive, tt)]))] [(3%positive, (mkPod (mkTask 3%positive 2%positive Running KFraction (mkRes 100%Z 1048576%Z 0%Z 1%Z 0%Z 0%Z) 1%Z 50%Z [17%positive] false false) (Some 1%positive) false 10%positive (mkRes 100%Z 1048576%Z 500%Z 0%Z 0%Z 0%Z) (mkRes 100%Z 1048576%Z 500%Z 0%Z 0%Z 0%Z) [(1%positive, 50%Z)] [(1%positive, (mkRes 100%Z 1048576%Z 500%Z 0%Z 0%Z 0%Z))])); (5%positive, (mkPod (mkTask 5%positive 4%positive Running KRegular (mkRes 100%Z 1048576%Z 1%Z 1%Z 0%Z 0%Z) 1%Z 0%Z [] false false) (Some 1%positive) false 11%positive (mkRes 100%Z 1048576%Z 1000%Z 0%Z 0%Z 0%Z) (mkRes 100%Z 1048576%Z 1000%Z 0%Z 0%Z 0%Z) [(1%positive, 0%Z)] [(1%positive, (mkRes 100%Z 1048576%Z 1000%Z 0%Z 0%Z 0%Z))])); (7%positive, (mkPod (mkTask 7%positive 6%positive Releasing KFraction (mkRes 100%Z 1048576%Z 0%Z 1%Z 0%Z 0%Z) 1%Z 25%Z [16%positive] false false) (Some 1%positive) false 12%positive (mkRes 100%Z 1048576%Z 250%Z 0%Z 0%Z 0%Z) (mkRes 100%Z 1048576%Z 250%Z 0%Z 0%Z 0%Z) [(1%positive, 25%Z)] [(1%positive, (mkRes 100%Z 1048576%Z 250%Z 0%Z 0%Z 0%Z))])); (9%positive, (mkPod (mkTask 9%positive 8%positive Pending KFraction (mkRes 100%Z 1048576%Z 0%Z 1%Z 0%Z 0%Z) 1%Z 50%Z [] false false) None false 13%positive (mkRes 100%Z 1048576%Z 500%Z 0%Z 0%Z 0%Z) (mkRes 100%Z 1048576%Z 500%Z 0%Z 0%Z 0%Z) [(1%positive, 50%Z)] [(1%positive, (mkRes 100%Z 1048576%Z 500%Z 0%Z 0%Z 0%Z))]))] [(2%positive, (mkJob 15%positive false (mkRes 100%Z 1048576%Z 500%Z 0%Z 0%Z 0%Z) 1%Z [(7%positive, 1%Z)] [(10%positive, (mkPsc 1%Z 1%Z 1%Z [(1%positive, 0%Z); (2%positive, 0%Z)]))])); (4%positive, (mkJob 15%positive false (mkRes 100%Z 1048576%Z 1000%Z 0%Z 0%Z 0%Z) 1%Z [(7%positive, 1%Z)] [(11%positive, (mkPsc 1%Z 1%Z 1%Z [(1%positive, 0%Z); (2%positive, 0%Z)]))])); (6%positive, (mkJob 15%positive false (mkRes 0%Z 0%Z 0%Z 0%Z 0%Z 0%Z) 0%Z [(8%positive, 1%Z)] [(12%positive, (mkPsc 0%Z 1%Z 0%Z [(1%positive, 0%Z); (2%positive, 0%Z)]))])); (8%positive, (mkJob 15%positive false (mkRes 0%Z 0%Z 0%Z 0%Z 0%Z 0%Z) 0%Z [(1%positive, 1%Z)] [(13%positive, (mkPsc 0%Z 0%Z 1%Z [(1%positive, 1%Z); (2%positive, 0%Z)]))]))] [(14%positive, (mkQ None (mkRes 200%Z 2097152%Z 1500%Z 0%Z 0%Z 0%Z) (mkRes 0%Z 0%Z 0%Z 0%Z 0%Z 0%Z))); (15%positive, (mkQ (Some 14%positive) (mkRes 200%Z 2097152%Z 1500%Z 0%Z 0%Z 0%Z) (mkRes 0%Z 0%Z 0%Z 0%Z 0%Z 0%Z)))] [] 0%nat false).
+Definition w9_prog : list cmd := [Checkpoint; (Pipeline 9%positive 1%positive (Some [16%positive]) false); (Rollback 0%nat)].
 Definition w10_init : sess :=
-  (mkSess [(1%positive, (mkNode (mkRes 16000%Z 68719476736%Z 4%Z 110%Z 0%Z 0%Z) (mkRes 15800%Z 68717379584%Z 1%Z 108%Z 0%Z 0%Z) (mkRes 200%Z 2097152%Z 2%Z 2%Z 0%Z 0%Z) (mkRes 0%Z 0%Z 0%Z 0%Z 0%Z 0%Z) 4%Z 100%Z [(4%positive, (mkTask 4%positive 3%positive Running KFraction (mkRes 100%Z 1048576%Z 0%Z 1%Z 0%Z 0%Z) 1%Z 50%Z [14%positive] false false)); (6%positive, (mkTask 6%positive 5%positive Running KRegular (mkRes 100%Z 1048576%Z 2%Z 1%Z 0%Z 0%Z) 2%Z 0%Z [] false false))] [(14%positive, 50%Z)] [(14%positive, 50%Z)] [] [])); (2%positive, (mkNode (mkRes 16000%Z 68719476736%Z 4%Z 110%Z 0%Z 0%Z) (mkRes 16000%Z 68719476736%Z 4%Z 110%Z 0%Z 0%Z) (mkRes 0%Z 0%Z 0%Z 0%Z 0%Z 0%Z) (mkRes 0%Z 0%Z 0%Z 0%Z 0%Z 0%Z) 4%Z 100%Z [] [] [] [] []))] [(4%positive, (mkPod (mkTask 4%positive 3%positive Running KFraction (mkRes 100%Z 1048576%Z 0%Z 1%Z 0%Z 0%Z) 1%Z 50%Z [14%positive] false false) (Some 1%positive) false 9%positive (mkRes 100%Z 1048576%Z 500%Z 0%Z 0%Z 0%Z) (mkRes 100%Z 1048576%Z 500%Z 0%Z 0%Z 0%Z))); (6%positive, (mkPod (mkTask 6%positive 5%positive Running KRegular (mkRes 100%Z 1048576%Z 2%Z 1%Z 0%Z 0%Z) 2%Z 0%Z [] false false) (Some 1%positive) false 10%positive (mkRes 100%Z 1048576%Z 2000%Z 0%Z 0%Z 0%Z) (mkRes 100%Z 1048576%Z 2000%Z 0%Z 0%Z 0%Z))); (8%positive, (mkPod (mkTask 8%positive 7%positive Pending KRegular (mkRes 100%Z 1048576%Z 1%Z 1%Z 0%Z 0%Z) 1%Z 0%Z [] false false) None false 11%positive (mkRes 100%Z 1048576%Z 1000%Z 0%Z 0%Z 0%Z) (mkRes 100%Z 1048576%Z 1000%Z 0%Z 0%Z 0%Z)))] [(3%positive, (mkJob 13%positive false (mkRes 100%Z 1048576%Z 500%Z 0%Z 0%Z 0%Z) 1%Z [(7%positive, 1%Z)] [(9%positive, (mkPsc 1%Z 1%Z 1%Z [(1%positive, 0%Z); (2%positive, 0%Z)]))])); (5%positive, (mkJob 13%positive false (mkRes 100%Z 1048576%Z 2000%Z 0%Z 0%Z 0%Z) 1%Z [(7%positive, 1%Z)] [(10%positive, (mkPsc 1%Z 1%Z 1%Z [(1%positive, 0%Z); (2%positive, 0%Z)]))])); (7%positive, (mkJob 13%positive false (mkRes 0%Z 0%Z 0%Z 0%Z 0%Z 0%Z) 0%Z [(1%positive, 1%Z)] [(11%positive, (mkPsc 0%Z 0%Z 1%Z [(1%positive, 1%Z); (2%positive, 0%Z)]))]))] [(12%positive, (mkQ None (mkRes 200%Z 2097152%Z 2500%Z 0%Z 0%Z 0%Z) (mkRes 0%Z 0%Z 0%Z 0%Z 0%Z 0%Z))); (13%positive, (mkQ (Some 12%positive) (mkRes 200%Z 2097152%Z 2500%Z 0%Z 0%Z 0%Z) (mkRes 0%Z 0%Z 0%Z 0%Z 0%Z 0%Z)))] [] 0%nat false).
+  (mkSess [(1%positive, (mkNode (mkRes 16000%Z 68719476736%Z 4%Z 110%Z 0%Z 0%Z) (mkRes 15800%Z 68717379584%Z 1%Z 108%Z 0%Z 0%Z) (mkRes 200%Z 2097152%Z 2%Z 2%Z 0%Z 0%Z) (mkRes 0%Z 0%Z 0%Z 0%Z 0%Z 0%Z) 4%Z 100%Z [(4%positive, (mkTask 4%positive 3%positive Running KFraction (mkRes 100%Z 1048576%Z 0%Z 1%Z 0%Z 0%Z) 1%Z 50%Z [14%positive] false false)); (6%positive, (mkTask 6%positive 5%positive Running KRegular (mkRes 100%Z 1048576%Z 2%Z 1%Z 0%Z 0%Z) 2%Z 0%Z [] false false))] [(14%positive, 50%Z)] [(14%positive, 50%Z)] [] [])); (2%positive, (mkNode (mkRes 16000%Z 68719476736%Z 4%Z 110%Z 0%Z 0%Z) (mkRes 16000%Z 68719476736%Z 4%Z 110%Z 0%Z 0%Z) (mkRes 0%Z 0%Z 0%Z 0%Z 0%Z 0%Z) (mkRes 0%Z 0%Z 0%Z 0%Z 0%Z 0%Z) 4%Z 100%Z [] [] [] [] []))] [(4%positive, (mkPod (mkTask 4%positive 3%positive Running KFraction (mkRes 100%Z 1048576%Z 0%Z 1%Z 0%Z 0%Z) 1%Z 50%Z [14%positive] false false) (Some 1%positive) false 9%positive (mkRes 100%Z 1048576%Z 500%Z 0%Z 0%Z 0%Z) (mkRes 100%Z 1048576%Z 500%Z 0%Z 0%Z 0%Z) [(1%positive, 50%Z); (2%positive, 50%Z)] [(1%positive, (mkRes 100%Z 1048576%Z 500%Z 0%Z 0%Z 0%Z)); (2%positive, (mkRes 100%Z 1048576%Z 500%Z 0%Z 0%Z 0%Z))])); (6%positive, (mkPod (mkTask 6%positive 5%positive Running KRegular (mkRes 100%Z 1048576%Z 2%Z 1%Z 0%Z 0%Z) 2%Z 0%Z [] false false) (Some 1%positive) false 10%positive (mkRes 100%Z 1048576%Z 2000%Z 0%Z 0%Z 0%Z) (mkRes 100%Z 1048576%Z 2000%Z 0%Z 0%Z 0%Z) [(1%positive, 0%Z); (2%positive, 0%Z)] [(1%positive, (mkRes 100%Z 1048576%Z 2000%Z 0%Z 0%Z 0%Z)); (2%positive, (mkRes 100%Z 1048576%Z 2000%Z 0%Z 0%Z 0%Z))])); (8%positive, (mkPod (mkTask 8%positive 7%positive Pending KRegular (mkRes 100%Z 1048576%Z 1%Z 1%Z 0%Z 0%Z) 1%Z 0%Z [] false false) None false 11%positive (mkRes 100%Z 1048576%Z 1000%Z 0%Z 0%Z 0%Z) (mkRes 100%Z 1048576%Z 1000%Z 0%Z 0%Z 0%Z) [(1%positive, 0%Z); (2%positive, 0%Z)] [(1%positive, (mkRes 100%Z 1048576%Z 1000%Z 0%Z 0%Z 0%Z)); (2%positive, (mkRes 100%Z 1048576%Z 1000%Z 0%Z 0%Z 0%Z))]))] [(3%positive, (mkJob 13%positive false (mkRes 100%Z 1048576%Z 500%Z 0%Z 0%Z 0%Z) 1%Z [(7%positive, 1%Z)] [(9%positive, (mkPsc 1%Z 1%Z 1%Z [(1%positive, 0%Z); (2%positive, 0%Z)]))])); (5%positive, (mkJob 13%positive false (mkRes 100%Z 1048576%Z 2000%Z 0%Z 0%Z 0%Z) 1%Z [(7%positive, 1%Z)] [(10%positive, (mkPsc 1%Z 1%Z 1%Z [(1%positive, 0%Z); (2%positive, 0%Z)]))])); (7%positive, (mkJob 13%positive false (mkRes 0%Z 0%Z 0%Z 0%Z 0%Z 0%Z) 0%Z [(1%positive, 1%Z)] [(11%positive, (mkPsc 0%Z 0%Z 1%Z [(1%positive, 1%Z); (2%positive, 0%Z)]))]))] [(12%positive, (mkQ None (mkRes 200%Z 2097152%Z 2500%Z 0%Z 0%Z 0%Z) (mkRes 0%Z 0%Z 0%Z 0%Z 0%Z 0%Z))); (13%positive, (mkQ (Some 12%positive) (mkRes 200%Z 2097152%Z 2500%Z 0%Z 0%Z 0%Z) (mkRes 0%Z 0%Z 0%Z 0%Z 0%Z 0%Z)))] [] 0%nat false).
 Definition w10_prog : list cmd := [(Evict 4%positive); Checkpoint; (Evict 6%positive); (Pipeline 8%positive 1%positive None false); (Pipeline 4%positive 1%positive (Some [14%positive]) false); Checkpoint; (Pipeline 6%positive 2%positive None false); (Rollback 4%nat); (Rollback 1%nat); Commit].
+Definition w11_init : sess :=
+  (mkSess [(1%positive, (mkNode (mkRes 16000%Z 68719476736%Z 2%Z 110%Z 0%Z 0%Z) (mkRes 15900%Z 68718428160%Z 1%Z 109%Z 0%Z 0%Z) (mkRes 100%Z 1048576%Z 0%Z 1%Z 0%Z 0%Z) (mkRes 0%Z 0%Z 0%Z 0%Z 0%Z 0%Z) 2%Z 100%Z [(4%positive, (mkTask 4%positive 3%positive Running KMemory (mkRes 100%Z 1048576%Z 0%Z 1%Z 0%Z 0%Z) 1%Z 50%Z [11%positive] false false))] [(11%positive, 50%Z)] [(11%positive, 50%Z)] [] [])); (2%positive, (mkNode (mkRes 16000%Z 68719476736%Z 2%Z 110%Z 0%Z 0%Z) (mkRes 15900%Z 68718428160%Z 1%Z 109%Z 0%Z 0%Z) (mkRes 100%Z 1048576%Z 0%Z 1%Z 0%Z 0%Z) (mkRes 0%Z 0%Z 0%Z 0%Z 0%Z 0%Z) 2%Z 200%Z [(6%positive, (mkTask 6%positive 5%positive Running KFraction (mkRes 100%Z 1048576%Z 0%Z 1%Z 0%Z 0%Z) 1%Z 50%Z [12%positive] false false))] [(12%positive, 50%Z)] [(12%positive, 50%Z)] [] []))] [(4%positive, (mkPod (mkTask 4%positive 3%positive Running KMemory (mkRes 100%Z 1048576%Z 0%Z 1%Z 0%Z 0%Z) 1%Z 50%Z [11%positive] false false) (Some 1%positive) false 7%positive (mkRes 100%Z 1048576%Z 0%Z 0%Z 0%Z 0%Z) (mkRes 100%Z 1048576%Z 500%Z 0%Z 0%Z 0%Z) [(1%positive, 50%Z); (2%positive, 50%Z)] [(1%positive, (mkRes 100%Z 1048576%Z 500%Z 0%Z 0%Z 0%Z)); (2%positive, (mkRes 100%Z 1048576%Z 250%Z 0%Z 0%Z 0%Z))])); (6%positive, (mkPod (mkTask 6%positive 5%positive Running KFraction (mkRes 100%Z 1048576%Z 0%Z 1%Z 0%Z 0%Z) 1%Z 50%Z [12%positive] false false) (Some 2%positive) false 8%positive (mkRes 100%Z 1048576%Z 250%Z 0%Z 0%Z 0%Z) (mkRes 100%Z 1048576%Z 250%Z 0%Z 0%Z 0%Z) [(1%positive, 25%Z); (2%positive, 50%Z)] [(1%positive, (mkRes 100%Z 1048576%Z 250%Z 0%Z 0%Z 0%Z)); (2%positive, (mkRes 100%Z 1048576%Z 250%Z 0%Z 0%Z 0%Z))]))] [(3%positive, (mkJob 10%positive false (mkRes 100%Z 1048576%Z 0%Z 0%Z 0%Z 0%Z) 1%Z [(7%positive, 1%Z)] [(7%positive, (mkPsc 1%Z 1%Z 1%Z [(1%positive, 0%Z); (2%positive, 0%Z)]))])); (5%positive, (mkJob 10%positive false (mkRes 100%Z 1048576%Z 250%Z 0%Z 0%Z 0%Z) 1%Z [(7%positive, 1%Z)] [(8%positive, (mkPsc 1%Z 1%Z 1%Z [(1%positive, 0%Z); (2%positive, 0%Z)]))]))] [(9%positive, (mkQ None (mkRes 200%Z 2097152%Z 750%Z 0%Z 0%Z 0%Z) (mkRes 0%Z 0%Z 0%Z 0%Z 0%Z 0%Z))); (10%positive, (mkQ (Some 9%positive) (mkRes 200%Z 2097152%Z 750%Z 0%Z 0%Z 0%Z) (mkRes 0%Z 0%Z 0%Z 0%Z 0%Z 0%Z)))] [] 0%nat false).
+Definition w11_prog : list cmd := [(Evict 4%positive); Checkpoint; (Pipeline 4%positive 2%positive (Some [13%positive]) false); (Rollback 1%nat); (Evict 6%positive); (Pipeline 6%positive 1%positive (Some [11%positive]) false); Discard].
 Definition nofail (_ : nat) : bool := false.
 
 (** the full statements *)
@@ -3133,3 +3190,12 @@ Proof.
   - exact W.
   - rewrite run_app. cbn [Session.run fold_left]. unfold step, step_full. rewrite Ks. reflexivity.
 Qed.
+
+(** the accepted resources of a gpu-memory pod depend on the node (W11: nodes with 100 and 200 MiB GPUs) and a
+    well-formed program moves such a pod between them and rolls back *)
+Theorem hetero_nonvacuous :
+  wf_from any_task nofail [] false w11_init w11_prog = true
+  /\ exists p, get_pod w11_init 4 = Some p
+       /\ option_map gpu (alookup 1%positive (p_qtab p)) = Some 500%Z
+       /\ option_map gpu (alookup 2%positive (p_qtab p)) = Some 250%Z.
+Proof. split; [vm_compute; reflexivity|]. eexists. split; [vm_compute; reflexivity|]. split; vm_compute; reflexivity. Qed.
